@@ -37,6 +37,13 @@ type comparison =
 | Lt
 | Gt
 
+(** val compOpp : comparison -> comparison **)
+
+let compOpp = function
+| Eq -> Eq
+| Lt -> Gt
+| Gt -> Lt
+
 module Coq__1 = struct
  (** val add : nat -> nat -> nat **)
  let rec add n0 m =
@@ -45,6 +52,37 @@ module Coq__1 = struct
    | S p -> S (add p m)
 end
 include Coq__1
+
+module Nat =
+ struct
+  (** val eqb : nat -> nat -> bool **)
+
+  let rec eqb n0 m =
+    match n0 with
+    | O -> (match m with
+            | O -> true
+            | S _ -> false)
+    | S n' -> (match m with
+               | O -> false
+               | S m' -> eqb n' m')
+ end
+
+(** val nth : nat -> 'a1 list -> 'a1 -> 'a1 **)
+
+let rec nth n0 l default =
+  match n0 with
+  | O -> (match l with
+          | [] -> default
+          | x :: _ -> x)
+  | S m -> (match l with
+            | [] -> default
+            | _ :: t -> nth m t default)
+
+(** val rev : 'a1 list -> 'a1 list **)
+
+let rec rev = function
+| [] -> []
+| x :: l' -> app (rev l') (x :: [])
 
 (** val concat : 'a1 list list -> 'a1 list **)
 
@@ -58,11 +96,50 @@ let rec map f = function
 | [] -> []
 | a :: t -> (f a) :: (map f t)
 
+(** val flat_map : ('a1 -> 'a2 list) -> 'a1 list -> 'a2 list **)
+
+let rec flat_map f = function
+| [] -> []
+| x :: t -> app (f x) (flat_map f t)
+
+(** val fold_left : ('a1 -> 'a2 -> 'a1) -> 'a2 list -> 'a1 -> 'a1 **)
+
+let rec fold_left f l a0 =
+  match l with
+  | [] -> a0
+  | b :: t -> fold_left f t (f a0 b)
+
+(** val existsb : ('a1 -> bool) -> 'a1 list -> bool **)
+
+let rec existsb f = function
+| [] -> false
+| a :: l0 -> (||) (f a) (existsb f l0)
+
+(** val forallb : ('a1 -> bool) -> 'a1 list -> bool **)
+
+let rec forallb f = function
+| [] -> true
+| a :: l0 -> (&&) (f a) (forallb f l0)
+
+(** val filter : ('a1 -> bool) -> 'a1 list -> 'a1 list **)
+
+let rec filter f = function
+| [] -> []
+| x :: l0 -> if f x then x :: (filter f l0) else filter f l0
+
 (** val find : ('a1 -> bool) -> 'a1 list -> 'a1 option **)
 
 let rec find f = function
 | [] -> None
 | x :: tl -> if f x then Some x else find f tl
+
+(** val split : ('a1 * 'a2) list -> 'a1 list * 'a2 list **)
+
+let rec split = function
+| [] -> ([], [])
+| p :: tl ->
+  let (x, y) = p in
+  let (left, right) = split tl in ((x :: left), (y :: right))
 
 (** val firstn : nat -> 'a1 list -> 'a1 list **)
 
@@ -81,6 +158,12 @@ let rec skipn n0 l =
   | S n1 -> (match l with
              | [] -> []
              | _ :: l0 -> skipn n1 l0)
+
+(** val repeat : 'a1 -> nat -> 'a1 list **)
+
+let rec repeat x = function
+| O -> []
+| S k -> x :: (repeat x k)
 
 type positive =
 | XI of positive
@@ -226,6 +309,13 @@ module Coq_Pos =
     | XO p -> XO (mul p y)
     | XH -> y
 
+  (** val size_nat : positive -> nat **)
+
+  let rec size_nat = function
+  | XI p0 -> S (size_nat p0)
+  | XO p0 -> S (size_nat p0)
+  | XH -> S O
+
   (** val compare_cont : comparison -> positive -> positive -> comparison **)
 
   let rec compare_cont r x y =
@@ -297,6 +387,12 @@ module N =
   | N0 -> N0
   | Npos p -> Npos (XO p)
 
+  (** val succ : n -> n **)
+
+  let succ = function
+  | N0 -> Npos XH
+  | Npos p -> Npos (Coq_Pos.succ p)
+
   (** val add : n -> n -> n **)
 
   let add n0 m =
@@ -357,12 +453,25 @@ module N =
     | Gt -> false
     | _ -> true
 
+  (** val ltb : n -> n -> bool **)
+
+  let ltb x y =
+    match compare x y with
+    | Lt -> true
+    | _ -> false
+
   (** val min : n -> n -> n **)
 
   let min n0 n' =
     match compare n0 n' with
     | Gt -> n'
     | _ -> n0
+
+  (** val size_nat : n -> nat **)
+
+  let size_nat = function
+  | N0 -> O
+  | Npos p -> Coq_Pos.size_nat p
 
   (** val pos_div_eucl : positive -> n -> n * n **)
 
@@ -474,6 +583,92 @@ module Z =
        | Zpos y' -> pos_sub y' x'
        | Zneg y' -> Zneg (Coq_Pos.add x' y'))
 
+  (** val opp : z -> z **)
+
+  let opp = function
+  | Z0 -> Z0
+  | Zpos x0 -> Zneg x0
+  | Zneg x0 -> Zpos x0
+
+  (** val sub : z -> z -> z **)
+
+  let sub m n0 =
+    add m (opp n0)
+
+  (** val mul : z -> z -> z **)
+
+  let mul x y =
+    match x with
+    | Z0 -> Z0
+    | Zpos x' ->
+      (match y with
+       | Z0 -> Z0
+       | Zpos y' -> Zpos (Coq_Pos.mul x' y')
+       | Zneg y' -> Zneg (Coq_Pos.mul x' y'))
+    | Zneg x' ->
+      (match y with
+       | Z0 -> Z0
+       | Zpos y' -> Zneg (Coq_Pos.mul x' y')
+       | Zneg y' -> Zpos (Coq_Pos.mul x' y'))
+
+  (** val compare : z -> z -> comparison **)
+
+  let compare x y =
+    match x with
+    | Z0 -> (match y with
+             | Z0 -> Eq
+             | Zpos _ -> Lt
+             | Zneg _ -> Gt)
+    | Zpos x' -> (match y with
+                  | Zpos y' -> Coq_Pos.compare x' y'
+                  | _ -> Gt)
+    | Zneg x' ->
+      (match y with
+       | Zneg y' -> compOpp (Coq_Pos.compare x' y')
+       | _ -> Lt)
+
+  (** val leb : z -> z -> bool **)
+
+  let leb x y =
+    match compare x y with
+    | Gt -> false
+    | _ -> true
+
+  (** val ltb : z -> z -> bool **)
+
+  let ltb x y =
+    match compare x y with
+    | Lt -> true
+    | _ -> false
+
+  (** val eqb : z -> z -> bool **)
+
+  let eqb x y =
+    match x with
+    | Z0 -> (match y with
+             | Z0 -> true
+             | _ -> false)
+    | Zpos p -> (match y with
+                 | Zpos q -> Coq_Pos.eqb p q
+                 | _ -> false)
+    | Zneg p -> (match y with
+                 | Zneg q -> Coq_Pos.eqb p q
+                 | _ -> false)
+
+  (** val max : z -> z -> z **)
+
+  let max n0 m =
+    match compare n0 m with
+    | Lt -> m
+    | _ -> n0
+
+  (** val min : z -> z -> z **)
+
+  let min n0 m =
+    match compare n0 m with
+    | Gt -> m
+    | _ -> n0
+
   (** val to_N : z -> n **)
 
   let to_N = function
@@ -485,6 +680,53 @@ module Z =
   let of_N = function
   | N0 -> Z0
   | Npos p -> Zpos p
+
+  (** val pos_div_eucl : positive -> z -> z * z **)
+
+  let rec pos_div_eucl a b =
+    match a with
+    | XI a' ->
+      let (q, r) = pos_div_eucl a' b in
+      let r' = add (mul (Zpos (XO XH)) r) (Zpos XH) in
+      if ltb r' b
+      then ((mul (Zpos (XO XH)) q), r')
+      else ((add (mul (Zpos (XO XH)) q) (Zpos XH)), (sub r' b))
+    | XO a' ->
+      let (q, r) = pos_div_eucl a' b in
+      let r' = mul (Zpos (XO XH)) r in
+      if ltb r' b
+      then ((mul (Zpos (XO XH)) q), r')
+      else ((add (mul (Zpos (XO XH)) q) (Zpos XH)), (sub r' b))
+    | XH -> if leb (Zpos (XO XH)) b then (Z0, (Zpos XH)) else ((Zpos XH), Z0)
+
+  (** val div_eucl : z -> z -> z * z **)
+
+  let div_eucl a b =
+    match a with
+    | Z0 -> (Z0, Z0)
+    | Zpos a' ->
+      (match b with
+       | Z0 -> (Z0, a)
+       | Zpos _ -> pos_div_eucl a' b
+       | Zneg b' ->
+         let (q, r) = pos_div_eucl a' (Zpos b') in
+         (match r with
+          | Z0 -> ((opp q), Z0)
+          | _ -> ((opp (add q (Zpos XH))), (add b r))))
+    | Zneg a' ->
+      (match b with
+       | Z0 -> (Z0, a)
+       | Zpos _ ->
+         let (q, r) = pos_div_eucl a' b in
+         (match r with
+          | Z0 -> ((opp q), Z0)
+          | _ -> ((opp (add q (Zpos XH))), (sub b r)))
+       | Zneg b' -> let (q, r) = pos_div_eucl a' (Zpos b') in (q, (opp r)))
+
+  (** val modulo : z -> z -> z **)
+
+  let modulo a b =
+    let (_, r) = div_eucl a b in r
  end
 
 type bytes = n list
@@ -555,6 +797,36 @@ let de32 a b c d =
             b) (Npos (XO (XO (XO (XO (XO (XO (XO (XO XH)))))))))) c) (Npos
       (XO (XO (XO (XO (XO (XO (XO (XO XH)))))))))) d
 
+(** val zeros : n -> bytes **)
+
+let zeros n0 =
+  repeat N0 (N.to_nat n0)
+
+(** val bytes_eqb : bytes -> bytes -> bool **)
+
+let rec bytes_eqb a b =
+  match a with
+  | [] -> (match b with
+           | [] -> true
+           | _ :: _ -> false)
+  | x :: a' ->
+    (match b with
+     | [] -> false
+     | y :: b' -> (&&) (N.eqb x y) (bytes_eqb a' b'))
+
+(** val u16_of : n -> n **)
+
+let u16_of n0 =
+  N.modulo n0 (Npos (XO (XO (XO (XO (XO (XO (XO (XO (XO (XO (XO (XO (XO (XO
+    (XO (XO XH)))))))))))))))))
+
+(** val u32_of : n -> n **)
+
+let u32_of n0 =
+  N.modulo n0 (Npos (XO (XO (XO (XO (XO (XO (XO (XO (XO (XO (XO (XO (XO (XO
+    (XO (XO (XO (XO (XO (XO (XO (XO (XO (XO (XO (XO (XO (XO (XO (XO (XO (XO
+    XH)))))))))))))))))))))))))))))))))
+
 type cmd =
 | Waste
 | Syn
@@ -607,6 +879,11 @@ let cmd_eqb a b =
                        | ServerSettings -> true
                        | _ -> false)
 
+(** val header_size : n **)
+
+let header_size =
+  Npos (XI (XI XH))
+
 (** val cmd_disc : (n * cmd) list **)
 
 let cmd_disc =
@@ -637,6 +914,187 @@ let cmd_default =
 let encode_max_payload =
   Npos (XI (XI (XI (XI (XI (XI (XI (XI (XI (XI (XI (XI (XI (XI (XI
     XH)))))))))))))))
+
+(** val check_mark : z **)
+
+let check_mark =
+  Zneg XH
+
+(** val default_scheme : n list **)
+
+let default_scheme =
+  (Npos (XI (XI (XO (XO (XI (XI XH))))))) :: ((Npos (XO (XO (XI (XO (XI (XI
+    XH))))))) :: ((Npos (XI (XI (XI (XI (XO (XI XH))))))) :: ((Npos (XO (XO
+    (XO (XO (XI (XI XH))))))) :: ((Npos (XI (XO (XI (XI (XI
+    XH)))))) :: ((Npos (XO (XO (XO (XI (XI XH)))))) :: ((Npos (XO (XI (XO
+    XH)))) :: ((Npos (XO (XO (XO (XO (XI XH)))))) :: ((Npos (XI (XO (XI (XI
+    (XI XH)))))) :: ((Npos (XI (XI (XO (XO (XI XH)))))) :: ((Npos (XO (XO (XO
+    (XO (XI XH)))))) :: ((Npos (XI (XO (XI (XI (XO XH)))))) :: ((Npos (XI (XI
+    (XO (XO (XI XH)))))) :: ((Npos (XO (XO (XO (XO (XI XH)))))) :: ((Npos (XO
+    (XI (XO XH)))) :: ((Npos (XI (XO (XO (XO (XI XH)))))) :: ((Npos (XI (XO
+    (XI (XI (XI XH)))))) :: ((Npos (XI (XO (XO (XO (XI XH)))))) :: ((Npos (XO
+    (XO (XO (XO (XI XH)))))) :: ((Npos (XO (XO (XO (XO (XI XH)))))) :: ((Npos
+    (XI (XO (XI (XI (XO XH)))))) :: ((Npos (XO (XO (XI (XO (XI
+    XH)))))) :: ((Npos (XO (XO (XO (XO (XI XH)))))) :: ((Npos (XO (XO (XO (XO
+    (XI XH)))))) :: ((Npos (XO (XI (XO XH)))) :: ((Npos (XO (XI (XO (XO (XI
+    XH)))))) :: ((Npos (XI (XO (XI (XI (XI XH)))))) :: ((Npos (XO (XO (XI (XO
+    (XI XH)))))) :: ((Npos (XO (XO (XO (XO (XI XH)))))) :: ((Npos (XO (XO (XO
+    (XO (XI XH)))))) :: ((Npos (XI (XO (XI (XI (XO XH)))))) :: ((Npos (XI (XO
+    (XI (XO (XI XH)))))) :: ((Npos (XO (XO (XO (XO (XI XH)))))) :: ((Npos (XO
+    (XO (XO (XO (XI XH)))))) :: ((Npos (XO (XO (XI (XI (XO XH)))))) :: ((Npos
+    (XI (XI (XO (XO (XO (XI XH))))))) :: ((Npos (XO (XO (XI (XI (XO
+    XH)))))) :: ((Npos (XI (XO (XI (XO (XI XH)))))) :: ((Npos (XO (XO (XO (XO
+    (XI XH)))))) :: ((Npos (XO (XO (XO (XO (XI XH)))))) :: ((Npos (XI (XO (XI
+    (XI (XO XH)))))) :: ((Npos (XI (XO (XO (XO (XI XH)))))) :: ((Npos (XO (XO
+    (XO (XO (XI XH)))))) :: ((Npos (XO (XO (XO (XO (XI XH)))))) :: ((Npos (XO
+    (XO (XO (XO (XI XH)))))) :: ((Npos (XO (XO (XI (XI (XO XH)))))) :: ((Npos
+    (XI (XI (XO (XO (XO (XI XH))))))) :: ((Npos (XO (XO (XI (XI (XO
+    XH)))))) :: ((Npos (XI (XO (XI (XO (XI XH)))))) :: ((Npos (XO (XO (XO (XO
+    (XI XH)))))) :: ((Npos (XO (XO (XO (XO (XI XH)))))) :: ((Npos (XI (XO (XI
+    (XI (XO XH)))))) :: ((Npos (XI (XO (XO (XO (XI XH)))))) :: ((Npos (XO (XO
+    (XO (XO (XI XH)))))) :: ((Npos (XO (XO (XO (XO (XI XH)))))) :: ((Npos (XO
+    (XO (XO (XO (XI XH)))))) :: ((Npos (XO (XO (XI (XI (XO XH)))))) :: ((Npos
+    (XI (XI (XO (XO (XO (XI XH))))))) :: ((Npos (XO (XO (XI (XI (XO
+    XH)))))) :: ((Npos (XI (XO (XI (XO (XI XH)))))) :: ((Npos (XO (XO (XO (XO
+    (XI XH)))))) :: ((Npos (XO (XO (XO (XO (XI XH)))))) :: ((Npos (XI (XO (XI
+    (XI (XO XH)))))) :: ((Npos (XI (XO (XO (XO (XI XH)))))) :: ((Npos (XO (XO
+    (XO (XO (XI XH)))))) :: ((Npos (XO (XO (XO (XO (XI XH)))))) :: ((Npos (XO
+    (XO (XO (XO (XI XH)))))) :: ((Npos (XO (XO (XI (XI (XO XH)))))) :: ((Npos
+    (XI (XI (XO (XO (XO (XI XH))))))) :: ((Npos (XO (XO (XI (XI (XO
+    XH)))))) :: ((Npos (XI (XO (XI (XO (XI XH)))))) :: ((Npos (XO (XO (XO (XO
+    (XI XH)))))) :: ((Npos (XO (XO (XO (XO (XI XH)))))) :: ((Npos (XI (XO (XI
+    (XI (XO XH)))))) :: ((Npos (XI (XO (XO (XO (XI XH)))))) :: ((Npos (XO (XO
+    (XO (XO (XI XH)))))) :: ((Npos (XO (XO (XO (XO (XI XH)))))) :: ((Npos (XO
+    (XO (XO (XO (XI XH)))))) :: ((Npos (XO (XI (XO XH)))) :: ((Npos (XI (XI
+    (XO (XO (XI XH)))))) :: ((Npos (XI (XO (XI (XI (XI XH)))))) :: ((Npos (XI
+    (XO (XO (XI (XI XH)))))) :: ((Npos (XI (XO (XI (XI (XO XH)))))) :: ((Npos
+    (XI (XO (XO (XI (XI XH)))))) :: ((Npos (XO (XO (XI (XI (XO
+    XH)))))) :: ((Npos (XI (XO (XI (XO (XI XH)))))) :: ((Npos (XO (XO (XO (XO
+    (XI XH)))))) :: ((Npos (XO (XO (XO (XO (XI XH)))))) :: ((Npos (XI (XO (XI
+    (XI (XO XH)))))) :: ((Npos (XI (XO (XO (XO (XI XH)))))) :: ((Npos (XO (XO
+    (XO (XO (XI XH)))))) :: ((Npos (XO (XO (XO (XO (XI XH)))))) :: ((Npos (XO
+    (XO (XO (XO (XI XH)))))) :: ((Npos (XO (XI (XO XH)))) :: ((Npos (XO (XO
+    (XI (XO (XI XH)))))) :: ((Npos (XI (XO (XI (XI (XI XH)))))) :: ((Npos (XI
+    (XO (XI (XO (XI XH)))))) :: ((Npos (XO (XO (XO (XO (XI XH)))))) :: ((Npos
+    (XO (XO (XO (XO (XI XH)))))) :: ((Npos (XI (XO (XI (XI (XO
+    XH)))))) :: ((Npos (XI (XO (XO (XO (XI XH)))))) :: ((Npos (XO (XO (XO (XO
+    (XI XH)))))) :: ((Npos (XO (XO (XO (XO (XI XH)))))) :: ((Npos (XO (XO (XO
+    (XO (XI XH)))))) :: ((Npos (XO (XI (XO XH)))) :: ((Npos (XI (XO (XI (XO
+    (XI XH)))))) :: ((Npos (XI (XO (XI (XI (XI XH)))))) :: ((Npos (XI (XO (XI
+    (XO (XI XH)))))) :: ((Npos (XO (XO (XO (XO (XI XH)))))) :: ((Npos (XO (XO
+    (XO (XO (XI XH)))))) :: ((Npos (XI (XO (XI (XI (XO XH)))))) :: ((Npos (XI
+    (XO (XO (XO (XI XH)))))) :: ((Npos (XO (XO (XO (XO (XI XH)))))) :: ((Npos
+    (XO (XO (XO (XO (XI XH)))))) :: ((Npos (XO (XO (XO (XO (XI
+    XH)))))) :: ((Npos (XO (XI (XO XH)))) :: ((Npos (XO (XI (XI (XO (XI
+    XH)))))) :: ((Npos (XI (XO (XI (XI (XI XH)))))) :: ((Npos (XI (XO (XI (XO
+    (XI XH)))))) :: ((Npos (XO (XO (XO (XO (XI XH)))))) :: ((Npos (XO (XO (XO
+    (XO (XI XH)))))) :: ((Npos (XI (XO (XI (XI (XO XH)))))) :: ((Npos (XI (XO
+    (XO (XO (XI XH)))))) :: ((Npos (XO (XO (XO (XO (XI XH)))))) :: ((Npos (XO
+    (XO (XO (XO (XI XH)))))) :: ((Npos (XO (XO (XO (XO (XI XH)))))) :: ((Npos
+    (XO (XI (XO XH)))) :: ((Npos (XI (XI (XI (XO (XI XH)))))) :: ((Npos (XI
+    (XO (XI (XI (XI XH)))))) :: ((Npos (XI (XO (XI (XO (XI XH)))))) :: ((Npos
+    (XO (XO (XO (XO (XI XH)))))) :: ((Npos (XO (XO (XO (XO (XI
+    XH)))))) :: ((Npos (XI (XO (XI (XI (XO XH)))))) :: ((Npos (XI (XO (XO (XO
+    (XI XH)))))) :: ((Npos (XO (XO (XO (XO (XI XH)))))) :: ((Npos (XO (XO (XO
+    (XO (XI XH)))))) :: ((Npos (XO (XO (XO (XO (XI
+    XH)))))) :: []))))))))))))))))))))))))))))))))))))))))))))))))))))))))))))))))))))))))))))))))))))))))))))))))))))))))))))))))))))))))))))))))))))))))
+
+(** val http_max_header : n **)
+
+let http_max_header =
+  Npos (XO (XO (XO (XO (XO (XO (XO (XO (XO (XO (XO (XO (XO (XO (XO (XO
+    XH))))))))))))))))
+
+(** val http_terminator : n list **)
+
+let http_terminator =
+  (Npos (XI (XO (XI XH)))) :: ((Npos (XO (XI (XO XH)))) :: ((Npos (XI (XO (XI
+    XH)))) :: ((Npos (XO (XI (XO XH)))) :: [])))
+
+(** val http_read_chunk : n **)
+
+let http_read_chunk =
+  Npos (XO (XO (XO (XO (XO (XO (XO (XO (XO (XO XH))))))))))
+
+(** val client_first_stream_id : n **)
+
+let client_first_stream_id =
+  Npos XH
+
+(** val client_pkt_start : n **)
+
+let client_pkt_start =
+  N0
+
+(** val client_send_padding : bool **)
+
+let client_send_padding =
+  true
+
+(** val server_pkt_start : n **)
+
+let server_pkt_start =
+  N0
+
+(** val server_send_padding : bool **)
+
+let server_send_padding =
+  false
+
+(** val padding_size_bound : z option **)
+
+let padding_size_bound =
+  Some (Zpos (XI (XI (XI (XI (XI (XI (XI (XI (XI (XI (XI (XI (XI (XI (XI
+    XH))))))))))))))))
+
+(** val pkt_index_offset : n **)
+
+let pkt_index_offset =
+  Npos XH
+
+(** val client_settings_fixed : (n list * n list) list **)
+
+let client_settings_fixed =
+  (((Npos (XO (XI (XI (XO (XI (XI XH))))))) :: []), ((Npos (XO (XI (XO (XO
+    (XI XH)))))) :: [])) :: ((((Npos (XI (XI (XO (XO (XO (XI
+    XH))))))) :: ((Npos (XO (XO (XI (XI (XO (XI XH))))))) :: ((Npos (XI (XO
+    (XO (XI (XO (XI XH))))))) :: ((Npos (XI (XO (XI (XO (XO (XI
+    XH))))))) :: ((Npos (XO (XI (XI (XI (XO (XI XH))))))) :: ((Npos (XO (XO
+    (XI (XO (XI (XI XH))))))) :: [])))))), ((Npos (XI (XO (XO (XO (XO (XI
+    XH))))))) :: ((Npos (XO (XI (XI (XI (XO (XI XH))))))) :: ((Npos (XI (XO
+    (XO (XI (XI (XI XH))))))) :: ((Npos (XO (XO (XI (XO (XI (XI
+    XH))))))) :: ((Npos (XO (XO (XI (XI (XO (XI XH))))))) :: ((Npos (XI (XI
+    (XO (XO (XI (XI XH))))))) :: ((Npos (XI (XO (XI (XI (XO
+    XH)))))) :: ((Npos (XO (XI (XO (XO (XI (XI XH))))))) :: ((Npos (XI (XI
+    (XO (XO (XI (XI XH))))))) :: ((Npos (XI (XI (XI (XI (XO
+    XH)))))) :: ((Npos (XO (XO (XO (XO (XI XH)))))) :: ((Npos (XO (XI (XI (XI
+    (XO XH)))))) :: ((Npos (XI (XO (XO (XO (XI XH)))))) :: ((Npos (XO (XI (XI
+    (XI (XO XH)))))) :: ((Npos (XO (XO (XO (XO (XI
+    XH)))))) :: [])))))))))))))))) :: [])
+
+(** val client_settings_md5_key : n list **)
+
+let client_settings_md5_key =
+  (Npos (XO (XO (XO (XO (XI (XI XH))))))) :: ((Npos (XI (XO (XO (XO (XO (XI
+    XH))))))) :: ((Npos (XO (XO (XI (XO (XO (XI XH))))))) :: ((Npos (XO (XO
+    (XI (XO (XO (XI XH))))))) :: ((Npos (XI (XO (XO (XI (XO (XI
+    XH))))))) :: ((Npos (XO (XI (XI (XI (XO (XI XH))))))) :: ((Npos (XI (XI
+    (XI (XO (XO (XI XH))))))) :: ((Npos (XI (XO (XI (XI (XO
+    XH)))))) :: ((Npos (XI (XO (XI (XI (XO (XI XH))))))) :: ((Npos (XO (XO
+    (XI (XO (XO (XI XH))))))) :: ((Npos (XI (XO (XI (XO (XI
+    XH)))))) :: []))))))))))
+
+(** val server_settings_md5_key : n list **)
+
+let server_settings_md5_key =
+  (Npos (XO (XO (XO (XO (XI (XI XH))))))) :: ((Npos (XI (XO (XO (XO (XO (XI
+    XH))))))) :: ((Npos (XO (XO (XI (XO (XO (XI XH))))))) :: ((Npos (XO (XO
+    (XI (XO (XO (XI XH))))))) :: ((Npos (XI (XO (XO (XI (XO (XI
+    XH))))))) :: ((Npos (XO (XI (XI (XI (XO (XI XH))))))) :: ((Npos (XI (XI
+    (XI (XO (XO (XI XH))))))) :: ((Npos (XI (XO (XI (XI (XO
+    XH)))))) :: ((Npos (XI (XO (XI (XI (XO (XI XH))))))) :: ((Npos (XO (XO
+    (XI (XO (XO (XI XH))))))) :: ((Npos (XI (XO (XI (XO (XI
+    XH)))))) :: []))))))))))
 
 (** val assoc_N : n -> (n * 'a1) list -> 'a1 option **)
 
@@ -852,3 +1310,2273 @@ let rec rd_read_script st = function
      let (st'', got) = p in ((st'', (app b got)), e)
    | REof -> ((st', []), true)
    | RPending -> ((st', []), false))
+
+(** val is_ws : n -> bool **)
+
+let is_ws b =
+  (||)
+    ((||)
+      ((||)
+        ((||)
+          ((||) (N.eqb b (Npos (XI (XO (XO XH)))))
+            (N.eqb b (Npos (XO (XI (XO XH))))))
+          (N.eqb b (Npos (XI (XI (XO XH))))))
+        (N.eqb b (Npos (XO (XO (XI XH))))))
+      (N.eqb b (Npos (XI (XO (XI XH))))))
+    (N.eqb b (Npos (XO (XO (XO (XO (XO XH)))))))
+
+(** val trim_start : bytes -> bytes **)
+
+let rec trim_start s = match s with
+| [] -> []
+| c :: t -> if is_ws c then trim_start t else s
+
+(** val trim_end : bytes -> bytes **)
+
+let trim_end s =
+  rev (trim_start (rev s))
+
+(** val trim : bytes -> bytes **)
+
+let trim s =
+  trim_end (trim_start s)
+
+(** val split_once : n -> bytes -> (bytes * bytes) option **)
+
+let rec split_once c = function
+| [] -> None
+| x :: t ->
+  if N.eqb x c
+  then Some ([], t)
+  else (match split_once c t with
+        | Some p -> let (a, b) = p in Some ((x :: a), b)
+        | None -> None)
+
+(** val split0 : n -> bytes -> bytes list **)
+
+let rec split0 c = function
+| [] -> [] :: []
+| x :: t ->
+  if N.eqb x c
+  then [] :: (split0 c t)
+  else (match split0 c t with
+        | [] -> (x :: []) :: []
+        | p :: ps -> (x :: p) :: ps)
+
+(** val strip_cr : bytes -> bytes **)
+
+let strip_cr l =
+  match rev l with
+  | [] -> l
+  | n0 :: r ->
+    (match n0 with
+     | N0 -> l
+     | Npos p ->
+       (match p with
+        | XI p0 ->
+          (match p0 with
+           | XO p1 ->
+             (match p1 with
+              | XI p2 -> (match p2 with
+                          | XH -> rev r
+                          | _ -> l)
+              | _ -> l)
+           | _ -> l)
+        | _ -> l))
+
+(** val lines_aux : bytes -> bytes -> bytes list **)
+
+let rec lines_aux cur_rev = function
+| [] -> (match cur_rev with
+         | [] -> []
+         | _ :: _ -> (rev cur_rev) :: [])
+| x :: t ->
+  if N.eqb x (Npos (XO (XI (XO XH))))
+  then (strip_cr (rev cur_rev)) :: (lines_aux [] t)
+  else lines_aux (x :: cur_rev) t
+
+(** val lines : bytes -> bytes list **)
+
+let lines s =
+  lines_aux [] s
+
+(** val digit_val : n -> z option **)
+
+let digit_val b =
+  if (&&) (N.leb (Npos (XO (XO (XO (XO (XI XH)))))) b)
+       (N.leb b (Npos (XI (XO (XO (XI (XI XH)))))))
+  then Some (Z.of_N (N.sub b (Npos (XO (XO (XO (XO (XI XH))))))))
+  else None
+
+(** val parse_digits : z -> bytes -> z option **)
+
+let rec parse_digits acc = function
+| [] -> Some acc
+| c :: t ->
+  (match digit_val c with
+   | Some d -> parse_digits (Z.add (Z.mul acc (Zpos (XO (XI (XO XH))))) d) t
+   | None -> None)
+
+(** val parse_nat_digits : bytes -> z option **)
+
+let parse_nat_digits s = match s with
+| [] -> None
+| _ :: _ -> parse_digits Z0 s
+
+(** val i64_min : z **)
+
+let i64_min =
+  Zneg (XO (XO (XO (XO (XO (XO (XO (XO (XO (XO (XO (XO (XO (XO (XO (XO (XO
+    (XO (XO (XO (XO (XO (XO (XO (XO (XO (XO (XO (XO (XO (XO (XO (XO (XO (XO
+    (XO (XO (XO (XO (XO (XO (XO (XO (XO (XO (XO (XO (XO (XO (XO (XO (XO (XO
+    (XO (XO (XO (XO (XO (XO (XO (XO (XO (XO
+    XH)))))))))))))))))))))))))))))))))))))))))))))))))))))))))))))))
+
+(** val i64_max : z **)
+
+let i64_max =
+  Zpos (XI (XI (XI (XI (XI (XI (XI (XI (XI (XI (XI (XI (XI (XI (XI (XI (XI
+    (XI (XI (XI (XI (XI (XI (XI (XI (XI (XI (XI (XI (XI (XI (XI (XI (XI (XI
+    (XI (XI (XI (XI (XI (XI (XI (XI (XI (XI (XI (XI (XI (XI (XI (XI (XI (XI
+    (XI (XI (XI (XI (XI (XI (XI (XI (XI
+    XH))))))))))))))))))))))))))))))))))))))))))))))))))))))))))))))
+
+(** val u32_max : z **)
+
+let u32_max =
+  Zpos (XI (XI (XI (XI (XI (XI (XI (XI (XI (XI (XI (XI (XI (XI (XI (XI (XI
+    (XI (XI (XI (XI (XI (XI (XI (XI (XI (XI (XI (XI (XI (XI
+    XH)))))))))))))))))))))))))))))))
+
+(** val parse_i64 : bytes -> z option **)
+
+let parse_i64 s = match s with
+| [] ->
+  let neg = false in
+  (match parse_nat_digits s with
+   | Some v ->
+     let z0 = if neg then Z.opp v else v in
+     if (&&) (Z.leb i64_min z0) (Z.leb z0 i64_max) then Some z0 else None
+   | None -> None)
+| n0 :: t ->
+  (match n0 with
+   | N0 ->
+     let neg = false in
+     (match parse_nat_digits s with
+      | Some v ->
+        let z0 = if neg then Z.opp v else v in
+        if (&&) (Z.leb i64_min z0) (Z.leb z0 i64_max) then Some z0 else None
+      | None -> None)
+   | Npos p ->
+     (match p with
+      | XI p0 ->
+        (match p0 with
+         | XI p1 ->
+           (match p1 with
+            | XO p2 ->
+              (match p2 with
+               | XI p3 ->
+                 (match p3 with
+                  | XO p4 ->
+                    (match p4 with
+                     | XH ->
+                       let neg = false in
+                       (match parse_nat_digits t with
+                        | Some v ->
+                          let z0 = if neg then Z.opp v else v in
+                          if (&&) (Z.leb i64_min z0) (Z.leb z0 i64_max)
+                          then Some z0
+                          else None
+                        | None -> None)
+                     | _ ->
+                       let neg = false in
+                       (match parse_nat_digits s with
+                        | Some v ->
+                          let z0 = if neg then Z.opp v else v in
+                          if (&&) (Z.leb i64_min z0) (Z.leb z0 i64_max)
+                          then Some z0
+                          else None
+                        | None -> None))
+                  | _ ->
+                    let neg = false in
+                    (match parse_nat_digits s with
+                     | Some v ->
+                       let z0 = if neg then Z.opp v else v in
+                       if (&&) (Z.leb i64_min z0) (Z.leb z0 i64_max)
+                       then Some z0
+                       else None
+                     | None -> None))
+               | _ ->
+                 let neg = false in
+                 (match parse_nat_digits s with
+                  | Some v ->
+                    let z0 = if neg then Z.opp v else v in
+                    if (&&) (Z.leb i64_min z0) (Z.leb z0 i64_max)
+                    then Some z0
+                    else None
+                  | None -> None))
+            | _ ->
+              let neg = false in
+              (match parse_nat_digits s with
+               | Some v ->
+                 let z0 = if neg then Z.opp v else v in
+                 if (&&) (Z.leb i64_min z0) (Z.leb z0 i64_max)
+                 then Some z0
+                 else None
+               | None -> None))
+         | XO p1 ->
+           (match p1 with
+            | XI p2 ->
+              (match p2 with
+               | XI p3 ->
+                 (match p3 with
+                  | XO p4 ->
+                    (match p4 with
+                     | XH ->
+                       let neg = true in
+                       (match parse_nat_digits t with
+                        | Some v ->
+                          let z0 = if neg then Z.opp v else v in
+                          if (&&) (Z.leb i64_min z0) (Z.leb z0 i64_max)
+                          then Some z0
+                          else None
+                        | None -> None)
+                     | _ ->
+                       let neg = false in
+                       (match parse_nat_digits s with
+                        | Some v ->
+                          let z0 = if neg then Z.opp v else v in
+                          if (&&) (Z.leb i64_min z0) (Z.leb z0 i64_max)
+                          then Some z0
+                          else None
+                        | None -> None))
+                  | _ ->
+                    let neg = false in
+                    (match parse_nat_digits s with
+                     | Some v ->
+                       let z0 = if neg then Z.opp v else v in
+                       if (&&) (Z.leb i64_min z0) (Z.leb z0 i64_max)
+                       then Some z0
+                       else None
+                     | None -> None))
+               | _ ->
+                 let neg = false in
+                 (match parse_nat_digits s with
+                  | Some v ->
+                    let z0 = if neg then Z.opp v else v in
+                    if (&&) (Z.leb i64_min z0) (Z.leb z0 i64_max)
+                    then Some z0
+                    else None
+                  | None -> None))
+            | _ ->
+              let neg = false in
+              (match parse_nat_digits s with
+               | Some v ->
+                 let z0 = if neg then Z.opp v else v in
+                 if (&&) (Z.leb i64_min z0) (Z.leb z0 i64_max)
+                 then Some z0
+                 else None
+               | None -> None))
+         | XH ->
+           let neg = false in
+           (match parse_nat_digits s with
+            | Some v ->
+              let z0 = if neg then Z.opp v else v in
+              if (&&) (Z.leb i64_min z0) (Z.leb z0 i64_max)
+              then Some z0
+              else None
+            | None -> None))
+      | _ ->
+        let neg = false in
+        (match parse_nat_digits s with
+         | Some v ->
+           let z0 = if neg then Z.opp v else v in
+           if (&&) (Z.leb i64_min z0) (Z.leb z0 i64_max)
+           then Some z0
+           else None
+         | None -> None)))
+
+(** val parse_u32 : bytes -> n option **)
+
+let parse_u32 s =
+  let body =
+    match s with
+    | [] -> s
+    | n0 :: t ->
+      (match n0 with
+       | N0 -> s
+       | Npos p ->
+         (match p with
+          | XI p0 ->
+            (match p0 with
+             | XI p1 ->
+               (match p1 with
+                | XO p2 ->
+                  (match p2 with
+                   | XI p3 ->
+                     (match p3 with
+                      | XO p4 -> (match p4 with
+                                  | XH -> t
+                                  | _ -> s)
+                      | _ -> s)
+                   | _ -> s)
+                | _ -> s)
+             | _ -> s)
+          | _ -> s))
+  in
+  (match parse_nat_digits body with
+   | Some v -> if Z.leb v u32_max then Some (Z.to_N v) else None
+   | None -> None)
+
+(** val to_dec_fuel : nat -> n -> bytes -> bytes **)
+
+let rec to_dec_fuel fuel n0 acc =
+  match fuel with
+  | O -> acc
+  | S f ->
+    let acc' =
+      (N.add (Npos (XO (XO (XO (XO (XI XH))))))
+        (N.modulo n0 (Npos (XO (XI (XO XH)))))) :: acc
+    in
+    if N.eqb (N.div n0 (Npos (XO (XI (XO XH))))) N0
+    then acc'
+    else to_dec_fuel f (N.div n0 (Npos (XO (XI (XO XH))))) acc'
+
+(** val u32_to_string : n -> bytes **)
+
+let u32_to_string n0 =
+  to_dec_fuel (S (S (S (S (S (S (S (S (S (S O)))))))))) n0 []
+
+(** val filter_map : ('a1 -> 'a2 option) -> 'a1 list -> 'a2 list **)
+
+let rec filter_map f = function
+| [] -> []
+| x :: t ->
+  (match f x with
+   | Some y -> y :: (filter_map f t)
+   | None -> filter_map f t)
+
+type smap = (bytes * bytes) list
+
+(** val map_get : bytes -> smap -> bytes option **)
+
+let rec map_get k = function
+| [] -> None
+| p :: m' ->
+  let (k', v) = p in
+  (match map_get k m' with
+   | Some x -> Some x
+   | None -> if bytes_eqb k' k then Some v else None)
+
+(** val parse_kv : bytes -> (bytes * bytes) option **)
+
+let parse_kv l =
+  match split_once (Npos (XI (XO (XI (XI (XI XH)))))) l with
+  | Some p -> let (k, v) = p in Some ((trim k), (trim v))
+  | None -> None
+
+(** val parse_map : bytes -> smap **)
+
+let parse_map raw =
+  filter_map parse_kv (lines raw)
+
+(** val key_stop : bytes **)
+
+let key_stop =
+  (Npos (XI (XI (XO (XO (XI (XI XH))))))) :: ((Npos (XO (XO (XI (XO (XI (XI
+    XH))))))) :: ((Npos (XI (XI (XI (XI (XO (XI XH))))))) :: ((Npos (XO (XO
+    (XO (XO (XI (XI XH))))))) :: [])))
+
+(** val lit_c : bytes **)
+
+let lit_c =
+  (Npos (XI (XI (XO (XO (XO (XI XH))))))) :: []
+
+type scheme = { sc_map : smap; sc_raw : bytes; sc_stop : n }
+
+(** val factory_new : bytes -> scheme option **)
+
+let factory_new raw =
+  let m = parse_map raw in
+  (match map_get key_stop m with
+   | Some v ->
+     (match parse_u32 v with
+      | Some s -> Some { sc_map = m; sc_raw = raw; sc_stop = s }
+      | None -> None)
+   | None -> None)
+
+type entry =
+| ECheck
+| ERange of z * z
+
+(** val or0 : z option -> z **)
+
+let or0 = function
+| Some z0 -> z0
+| None -> Z0
+
+(** val parse_entry : z option -> bytes -> entry option **)
+
+let parse_entry bound part =
+  let p = trim part in
+  if bytes_eqb p lit_c
+  then Some ECheck
+  else (match split_once (Npos (XI (XO (XI (XI (XO XH)))))) p with
+        | Some p0 ->
+          let (a, b) = p0 in
+          let lo = or0 (parse_i64 (trim a)) in
+          let hi = or0 (parse_i64 (trim b)) in
+          if (||) (Z.leb lo Z0) (Z.leb hi Z0)
+          then None
+          else let mn = Z.min lo hi in
+               let mx = Z.max lo hi in
+               (match bound with
+                | Some bd ->
+                  if Z.ltb bd mx then None else Some (ERange (mn, mx))
+                | None -> Some (ERange (mn, mx)))
+        | None -> None)
+
+(** val spec_entries : z option -> bytes -> entry list **)
+
+let spec_entries bound spec =
+  filter_map (parse_entry bound)
+    (split0 (Npos (XO (XO (XI (XI (XO XH)))))) spec)
+
+(** val line_entries_gen : z option -> scheme -> n -> entry list **)
+
+let line_entries_gen bound sc pkt0 =
+  match map_get (u32_to_string pkt0) sc.sc_map with
+  | Some spec -> spec_entries bound spec
+  | None -> []
+
+(** val line_entries : scheme -> n -> entry list **)
+
+let line_entries =
+  line_entries_gen padding_size_bound
+
+(** val i32_of : z -> z **)
+
+let i32_of z0 =
+  Z.sub
+    (Z.modulo
+      (Z.add z0 (Zpos (XO (XO (XO (XO (XO (XO (XO (XO (XO (XO (XO (XO (XO (XO
+        (XO (XO (XO (XO (XO (XO (XO (XO (XO (XO (XO (XO (XO (XO (XO (XO (XO
+        XH))))))))))))))))))))))))))))))))) (Zpos (XO (XO (XO (XO (XO (XO (XO
+      (XO (XO (XO (XO (XO (XO (XO (XO (XO (XO (XO (XO (XO (XO (XO (XO (XO (XO
+      (XO (XO (XO (XO (XO (XO (XO XH)))))))))))))))))))))))))))))))))) (Zpos
+    (XO (XO (XO (XO (XO (XO (XO (XO (XO (XO (XO (XO (XO (XO (XO (XO (XO (XO
+    (XO (XO (XO (XO (XO (XO (XO (XO (XO (XO (XO (XO (XO
+    XH))))))))))))))))))))))))))))))))
+
+(** val usize_of_i32 : z -> n **)
+
+let usize_of_i32 z0 =
+  Z.to_N
+    (if Z.ltb z0 Z0
+     then Z.add z0 (Zpos (XO (XO (XO (XO (XO (XO (XO (XO (XO (XO (XO (XO (XO
+            (XO (XO (XO (XO (XO (XO (XO (XO (XO (XO (XO (XO (XO (XO (XO (XO
+            (XO (XO (XO (XO (XO (XO (XO (XO (XO (XO (XO (XO (XO (XO (XO (XO
+            (XO (XO (XO (XO (XO (XO (XO (XO (XO (XO (XO (XO (XO (XO (XO (XO
+            (XO (XO (XO
+            XH)))))))))))))))))))))))))))))))))))))))))))))))))))))))))))))))))
+     else z0)
+
+(** val isize_max : n **)
+
+let isize_max =
+  Npos (XI (XI (XI (XI (XI (XI (XI (XI (XI (XI (XI (XI (XI (XI (XI (XI (XI
+    (XI (XI (XI (XI (XI (XI (XI (XI (XI (XI (XI (XI (XI (XI (XI (XI (XI (XI
+    (XI (XI (XI (XI (XI (XI (XI (XI (XI (XI (XI (XI (XI (XI (XI (XI (XI (XI
+    (XI (XI (XI (XI (XI (XI (XI (XI (XI
+    XH))))))))))))))))))))))))))))))))))))))))))))))))))))))))))))))
+
+(** val sizes : entry list -> z list -> z list **)
+
+let rec sizes es draws =
+  match es with
+  | [] -> []
+  | e :: es' ->
+    (match e with
+     | ECheck -> check_mark :: (sizes es' draws)
+     | ERange (lo, hi) ->
+       if Z.eqb lo hi
+       then (i32_of lo) :: (sizes es' draws)
+       else (match draws with
+             | [] -> (i32_of lo) :: (sizes es' [])
+             | d :: ds -> (i32_of d) :: (sizes es' ds)))
+
+(** val wr : bytes -> bytes list **)
+
+let wr b = match b with
+| [] -> []
+| _ :: _ -> b :: []
+
+(** val is_nil0 : 'a1 list -> bool **)
+
+let is_nil0 = function
+| [] -> true
+| _ :: _ -> false
+
+(** val waste_bytes : n -> n -> bytes **)
+
+let waste_bytes lf n0 =
+  (byte_of_cmd Waste) :: (app (be32 N0) (app (be16 lf) (zeros n0)))
+
+type shaped =
+| Crash
+| Writes of bytes list
+
+(** val and_then : bytes list -> shaped -> shaped **)
+
+let and_then w = function
+| Crash -> Crash
+| Writes ws -> Writes (app w ws)
+
+(** val shape_loop : z list -> bytes -> shaped **)
+
+let rec shape_loop szs buf =
+  match szs with
+  | [] -> Writes (wr buf)
+  | s :: rest ->
+    if Z.eqb s check_mark
+    then if is_nil0 buf then Writes [] else shape_loop rest buf
+    else let sz = usize_of_i32 s in
+         let remain = lenN buf in
+         if N.ltb sz remain
+         then and_then (wr (takeN sz buf)) (shape_loop rest (dropN sz buf))
+         else if N.ltb N0 remain
+              then let pl = N.sub sz (N.add remain header_size) in
+                   if N.ltb N0 pl
+                   then if N.ltb isize_max (N.add header_size pl)
+                        then Crash
+                        else and_then
+                               (wr (app buf (waste_bytes (u16_of pl) pl)))
+                               (shape_loop rest [])
+                   else and_then (wr buf) (shape_loop rest [])
+              else if N.ltb isize_max (N.add header_size sz)
+                   then Crash
+                   else and_then (wr (waste_bytes (u16_of sz) sz))
+                          (shape_loop rest [])
+
+(** val pkt_index : n -> n **)
+
+let pkt_index counter =
+  u32_of (N.add counter pkt_index_offset)
+
+(** val write_packet_gen :
+    (n -> n) -> (scheme -> n -> entry list) -> bool -> scheme -> n -> z list
+    -> bytes -> shaped * n **)
+
+let write_packet_gen idx entries_of pads sc counter draws buf =
+  if negb pads
+  then ((Writes (wr buf)), counter)
+  else let pkt0 = idx counter in
+       let counter' = u32_of (N.add counter (Npos XH)) in
+       if N.leb sc.sc_stop pkt0
+       then ((Writes (wr buf)), counter')
+       else (match sizes (entries_of sc pkt0) draws with
+             | [] -> ((Writes (wr buf)), counter')
+             | z0 :: l -> ((shape_loop (z0 :: l) buf), counter'))
+
+(** val write_packet :
+    bool -> scheme -> n -> z list -> bytes -> shaped * n **)
+
+let write_packet =
+  write_packet_gen pkt_index line_entries
+
+type csess = { cs_client : bool; cs_scheme : scheme; cs_counter : n;
+               cs_buffering : bool; cs_buffer : bytes }
+
+(** val sess_new : bool -> scheme -> csess **)
+
+let sess_new client sc =
+  { cs_client = client; cs_scheme = sc; cs_counter =
+    (if client then client_pkt_start else server_pkt_start); cs_buffering =
+    false; cs_buffer = [] }
+
+(** val sess_pads : csess -> bool **)
+
+let sess_pads s =
+  if s.cs_client then client_send_padding else server_send_padding
+
+(** val sess_write : csess -> z list -> bytes -> csess * shaped option **)
+
+let sess_write s draws e =
+  if s.cs_buffering
+  then ({ cs_client = s.cs_client; cs_scheme = s.cs_scheme; cs_counter =
+         s.cs_counter; cs_buffering = true; cs_buffer =
+         (app s.cs_buffer e) }, None)
+  else let (r, c') =
+         write_packet (sess_pads s) s.cs_scheme s.cs_counter draws
+           (app s.cs_buffer e)
+       in
+       ({ cs_client = s.cs_client; cs_scheme = s.cs_scheme; cs_counter = c';
+       cs_buffering = false; cs_buffer = [] }, (Some r))
+
+(** val sess_set_buffering : csess -> bool -> csess **)
+
+let sess_set_buffering s b =
+  { cs_client = s.cs_client; cs_scheme = s.cs_scheme; cs_counter =
+    s.cs_counter; cs_buffering = b; cs_buffer = s.cs_buffer }
+
+(** val sess_set_scheme : csess -> scheme -> csess **)
+
+let sess_set_scheme s sc =
+  { cs_client = s.cs_client; cs_scheme = sc; cs_counter = s.cs_counter;
+    cs_buffering = s.cs_buffering; cs_buffer = s.cs_buffer }
+
+(** val run_packets :
+    bool -> scheme -> n -> (z list * bytes) list -> shaped list **)
+
+let rec run_packets pads sc counter = function
+| [] -> []
+| p0 :: rest ->
+  let (d, p) = p0 in
+  let (r, c') = write_packet pads sc counter d p in
+  r :: (run_packets pads sc c' rest)
+
+(** val auth_writes : bytes -> z list -> bytes list **)
+
+let auth_writes hash szs =
+  let first = match szs with
+              | [] -> Z0
+              | s :: _ -> s in
+  let plen = if Z.ltb first Z0 then N0 else u16_of (Z.to_N first) in
+  app (wr hash)
+    (app (wr (be16 plen)) (if N.ltb N0 plen then wr (zeros plen) else []))
+
+(** val waste : n -> bytes **)
+
+let waste n0 =
+  N0 :: (app (be32 N0) (app (be16 n0) (zeros n0)))
+
+(** val in_range : z -> z -> z -> bool **)
+
+let in_range lo hi x =
+  (&&) (Z.leb lo x) (Z.leb x hi)
+
+(** val accepts : entry list -> bytes -> bytes list -> bool **)
+
+let rec accepts es p ws =
+  match es with
+  | [] ->
+    (match p with
+     | [] -> is_nil0 ws
+     | _ :: _ ->
+       (match ws with
+        | [] -> false
+        | w :: l -> (match l with
+                     | [] -> bytes_eqb w p
+                     | _ :: _ -> false)))
+  | e :: es' ->
+    (match e with
+     | ECheck -> (match p with
+                  | [] -> is_nil0 ws
+                  | _ :: _ -> accepts es' p ws)
+     | ERange (lo, hi) ->
+       (match ws with
+        | [] -> false
+        | w :: ws' ->
+          let l = Z.of_N (lenN w) in
+          let r = Z.of_N (lenN p) in
+          (match p with
+           | [] ->
+             let s = Z.sub l (Zpos (XI (XI XH))) in
+             (&&)
+               ((&&)
+                 ((&&) (in_range lo hi s)
+                   (Z.leb s (Zpos (XI (XI (XI (XI (XI (XI (XI (XI (XI (XI (XI
+                     (XI (XI (XI (XI XH))))))))))))))))))
+                 (bytes_eqb w (waste (Z.to_N s)))) (accepts es' [] ws')
+           | _ :: _ ->
+             if Z.ltb l r
+             then (&&)
+                    ((&&) (in_range lo hi l) (bytes_eqb w (takeN (lenN w) p)))
+                    (accepts es' (dropN (lenN w) p) ws')
+             else if Z.eqb l r
+                  then (&&)
+                         ((&&)
+                           (Z.leb (Z.max lo r)
+                             (Z.min hi (Z.add r (Zpos (XI (XI XH))))))
+                           (bytes_eqb w p)) (accepts es' [] ws')
+                  else let n0 = Z.sub (Z.sub l r) (Zpos (XI (XI XH))) in
+                       (&&)
+                         ((&&)
+                           ((&&) ((&&) (in_range lo hi l) (Z.ltb Z0 n0))
+                             (Z.leb n0 (Zpos (XI (XI (XI (XI (XI (XI (XI (XI
+                               (XI (XI (XI (XI (XI (XI (XI XH))))))))))))))))))
+                           (bytes_eqb w (app p (waste (Z.to_N n0)))))
+                         (accepts es' [] ws'))))
+
+(** val builtin_scheme : scheme **)
+
+let builtin_scheme =
+  match factory_new default_scheme with
+  | Some s -> s
+  | None -> { sc_map = []; sc_raw = default_scheme; sc_stop = N0 }
+
+type proc = { p_builtin_made : bool; p_updated : scheme option }
+
+(** val proc_init : proc **)
+
+let proc_init =
+  { p_builtin_made = false; p_updated = None }
+
+(** val proc_default : proc -> scheme * proc **)
+
+let proc_default p =
+  match p.p_updated with
+  | Some s -> (s, p)
+  | None -> (builtin_scheme, { p_builtin_made = true; p_updated = None })
+
+(** val proc_update : proc -> bytes -> proc option **)
+
+let proc_update p raw =
+  match factory_new raw with
+  | Some f -> Some { p_builtin_made = p.p_builtin_made; p_updated = (Some f) }
+  | None -> None
+
+(** val session_padding : proc -> scheme -> scheme **)
+
+let session_padding p client_scheme =
+  match p.p_updated with
+  | Some s -> s
+  | None -> client_scheme
+
+(** val on_update : proc -> csess -> bytes -> proc * csess **)
+
+let on_update p s raw =
+  if (&&) s.cs_client (negb (is_nil0 raw))
+  then (match proc_update p raw with
+        | Some p' ->
+          let (d, p'') = proc_default p' in (p'', (sess_set_scheme s d))
+        | None -> (p, s))
+  else (p, s)
+
+(** val scheme_md5 : (bytes -> bytes) -> scheme -> bytes **)
+
+let scheme_md5 md5 sc =
+  md5 sc.sc_raw
+
+(** val client_settings : (bytes -> bytes) -> scheme -> smap **)
+
+let client_settings md5 sc =
+  app client_settings_fixed ((client_settings_md5_key,
+    (scheme_md5 md5 sc)) :: [])
+
+(** val server_on_announce :
+    (bytes -> bytes) -> scheme -> bytes option -> bytes option **)
+
+let server_on_announce md5 srv = function
+| Some a -> if bytes_eqb a (scheme_md5 md5 srv) then None else Some srv.sc_raw
+| None -> None
+
+(** val server_on_settings :
+    (bytes -> bytes) -> scheme -> smap -> bytes option **)
+
+let server_on_settings md5 srv settings =
+  server_on_announce md5 srv (map_get server_settings_md5_key settings)
+
+type world = { w_proc : proc; w_client : scheme; w_sessions : csess list;
+               w_out : (nat * shaped) list }
+
+(** val world_init : proc -> scheme -> world **)
+
+let world_init p client_scheme =
+  { w_proc = p; w_client = client_scheme; w_sessions = []; w_out = [] }
+
+(** val h_nil : 'a1 list -> bool **)
+
+let h_nil = function
+| [] -> true
+| _ :: _ -> false
+
+(** val h_is_ws : n -> bool **)
+
+let h_is_ws c =
+  (||)
+    ((&&) (N.leb (Npos (XI (XO (XO XH)))) c)
+      (N.leb c (Npos (XI (XO (XI XH))))))
+    (N.eqb c (Npos (XO (XO (XO (XO (XO XH)))))))
+
+(** val h_starts_with : bytes -> bytes -> bool **)
+
+let rec h_starts_with p s =
+  match p with
+  | [] -> true
+  | x :: p' ->
+    (match s with
+     | [] -> false
+     | y :: s' -> (&&) (N.eqb x y) (h_starts_with p' s'))
+
+(** val h_strip_prefix : bytes -> bytes -> bytes option **)
+
+let rec h_strip_prefix p s =
+  match p with
+  | [] -> Some s
+  | x :: p' ->
+    (match s with
+     | [] -> None
+     | y :: s' -> if N.eqb x y then h_strip_prefix p' s' else None)
+
+(** val h_find : bytes -> bytes -> n option **)
+
+let rec h_find p s =
+  if h_starts_with p s
+  then Some N0
+  else (match s with
+        | [] -> None
+        | _ :: s' ->
+          (match h_find p s' with
+           | Some i -> Some (N.succ i)
+           | None -> None))
+
+(** val h_find_if : (n -> bool) -> bytes -> n option **)
+
+let rec h_find_if f = function
+| [] -> None
+| x :: s' ->
+  if f x
+  then Some N0
+  else (match h_find_if f s' with
+        | Some i -> Some (N.succ i)
+        | None -> None)
+
+(** val h_rfind_byte : n -> bytes -> n option **)
+
+let rec h_rfind_byte c = function
+| [] -> None
+| x :: s' ->
+  (match h_rfind_byte c s' with
+   | Some i -> Some (N.succ i)
+   | None -> if N.eqb x c then Some N0 else None)
+
+(** val h_contains_byte : n -> bytes -> bool **)
+
+let h_contains_byte c s =
+  existsb (fun x -> N.eqb x c) s
+
+(** val h_split_crlf : bytes -> bytes list **)
+
+let rec h_split_crlf = function
+| [] -> [] :: []
+| x :: s' ->
+  (match s' with
+   | [] -> (x :: []) :: []
+   | y :: s'' ->
+     if (&&) (N.eqb x (Npos (XI (XO (XI XH)))))
+          (N.eqb y (Npos (XO (XI (XO XH)))))
+     then [] :: (h_split_crlf s'')
+     else (match h_split_crlf s' with
+           | [] -> (x :: []) :: []
+           | l :: ls -> (x :: l) :: ls))
+
+(** val h_ws_aux : bytes -> bytes * bytes list **)
+
+let rec h_ws_aux = function
+| [] -> ([], [])
+| x :: s' ->
+  let (t, ts) = h_ws_aux s' in
+  if h_is_ws x
+  then ([], (if h_nil t then ts else t :: ts))
+  else ((x :: t), ts)
+
+(** val h_split_whitespace : bytes -> bytes list **)
+
+let h_split_whitespace s =
+  let (t, ts) = h_ws_aux s in if h_nil t then ts else t :: ts
+
+(** val h_trim_start_by : (n -> bool) -> bytes -> bytes **)
+
+let rec h_trim_start_by f s = match s with
+| [] -> []
+| x :: s' -> if f x then h_trim_start_by f s' else s
+
+(** val h_trim_end_by : (n -> bool) -> bytes -> bytes **)
+
+let h_trim_end_by f s =
+  rev (h_trim_start_by f (rev s))
+
+(** val h_trim_by : (n -> bool) -> bytes -> bytes **)
+
+let h_trim_by f s =
+  h_trim_end_by f (h_trim_start_by f s)
+
+(** val h_trim : bytes -> bytes **)
+
+let h_trim s =
+  h_trim_by h_is_ws s
+
+(** val h_trim_matches : n -> bytes -> bytes **)
+
+let h_trim_matches c s =
+  h_trim_by (fun x -> N.eqb x c) s
+
+(** val h_lower : n -> n **)
+
+let h_lower c =
+  if (&&) (N.leb (Npos (XI (XO (XO (XO (XO (XO XH))))))) c)
+       (N.leb c (Npos (XO (XI (XO (XI (XI (XO XH))))))))
+  then N.add c (Npos (XO (XO (XO (XO (XO XH))))))
+  else c
+
+(** val h_to_lower : bytes -> bytes **)
+
+let h_to_lower s =
+  map h_lower s
+
+(** val h_eq_ignore_case : bytes -> bytes -> bool **)
+
+let h_eq_ignore_case a b =
+  bytes_eqb (h_to_lower a) (h_to_lower b)
+
+(** val h_digit : n -> n option **)
+
+let h_digit c =
+  if (&&) (N.leb (Npos (XO (XO (XO (XO (XI XH)))))) c)
+       (N.leb c (Npos (XI (XO (XO (XI (XI XH)))))))
+  then Some (N.sub c (Npos (XO (XO (XO (XO (XI XH)))))))
+  else None
+
+(** val h_parse_digits : n -> n -> bytes -> n option **)
+
+let rec h_parse_digits lim acc = function
+| [] -> Some acc
+| c :: s' ->
+  (match h_digit c with
+   | Some d ->
+     let v = N.add (N.mul acc (Npos (XO (XI (XO XH))))) d in
+     if N.leb v lim then h_parse_digits lim v s' else None
+   | None -> None)
+
+(** val h_parse_uint : n -> bytes -> n option **)
+
+let h_parse_uint lim s =
+  let s' =
+    match s with
+    | [] -> s
+    | c :: t -> if N.eqb c (Npos (XI (XI (XO (XI (XO XH)))))) then t else s
+  in
+  if h_nil s' then None else h_parse_digits lim N0 s'
+
+(** val h_parse_u16 : bytes -> n option **)
+
+let h_parse_u16 s =
+  h_parse_uint (Npos (XI (XI (XI (XI (XI (XI (XI (XI (XI (XI (XI (XI (XI (XI
+    (XI XH)))))))))))))))) s
+
+(** val h_dec_fuel : nat -> n -> bytes -> bytes **)
+
+let rec h_dec_fuel fuel n0 acc =
+  match fuel with
+  | O -> acc
+  | S k ->
+    let acc' =
+      (N.add (Npos (XO (XO (XO (XO (XI XH))))))
+        (N.modulo n0 (Npos (XO (XI (XO XH)))))) :: acc
+    in
+    if N.eqb (N.div n0 (Npos (XO (XI (XO XH))))) N0
+    then acc'
+    else h_dec_fuel k (N.div n0 (Npos (XO (XI (XO XH))))) acc'
+
+(** val h_dec : n -> bytes **)
+
+let h_dec n0 =
+  h_dec_fuel (S (N.size_nat n0)) n0 []
+
+type 'a hres =
+| HOk of 'a
+| HErr
+
+(** val k_crlf : bytes **)
+
+let k_crlf =
+  (Npos (XI (XO (XI XH)))) :: ((Npos (XO (XI (XO XH)))) :: [])
+
+(** val k_connect : bytes **)
+
+let k_connect =
+  (Npos (XI (XI (XO (XO (XO (XO XH))))))) :: ((Npos (XI (XI (XI (XI (XO (XO
+    XH))))))) :: ((Npos (XO (XI (XI (XI (XO (XO XH))))))) :: ((Npos (XO (XI
+    (XI (XI (XO (XO XH))))))) :: ((Npos (XI (XO (XI (XO (XO (XO
+    XH))))))) :: ((Npos (XI (XI (XO (XO (XO (XO XH))))))) :: ((Npos (XO (XO
+    (XI (XO (XI (XO XH))))))) :: []))))))
+
+(** val k_host_colon : bytes **)
+
+let k_host_colon =
+  (Npos (XO (XO (XO (XI (XO (XI XH))))))) :: ((Npos (XI (XI (XI (XI (XO (XI
+    XH))))))) :: ((Npos (XI (XI (XO (XO (XI (XI XH))))))) :: ((Npos (XO (XO
+    (XI (XO (XI (XI XH))))))) :: ((Npos (XO (XI (XO (XI (XI XH)))))) :: []))))
+
+(** val k_http : bytes **)
+
+let k_http =
+  (Npos (XO (XO (XO (XI (XO (XI XH))))))) :: ((Npos (XO (XO (XI (XO (XI (XI
+    XH))))))) :: ((Npos (XO (XO (XI (XO (XI (XI XH))))))) :: ((Npos (XO (XO
+    (XO (XO (XI (XI XH))))))) :: ((Npos (XO (XI (XO (XI (XI
+    XH)))))) :: ((Npos (XI (XI (XI (XI (XO XH)))))) :: ((Npos (XI (XI (XI (XI
+    (XO XH)))))) :: []))))))
+
+(** val k_https : bytes **)
+
+let k_https =
+  (Npos (XO (XO (XO (XI (XO (XI XH))))))) :: ((Npos (XO (XO (XI (XO (XI (XI
+    XH))))))) :: ((Npos (XO (XO (XI (XO (XI (XI XH))))))) :: ((Npos (XO (XO
+    (XO (XO (XI (XI XH))))))) :: ((Npos (XI (XI (XO (XO (XI (XI
+    XH))))))) :: ((Npos (XO (XI (XO (XI (XI XH)))))) :: ((Npos (XI (XI (XI
+    (XI (XO XH)))))) :: ((Npos (XI (XI (XI (XI (XO XH)))))) :: [])))))))
+
+(** val k_scheme_sep : bytes **)
+
+let k_scheme_sep =
+  (Npos (XO (XI (XO (XI (XI XH)))))) :: ((Npos (XI (XI (XI (XI (XO
+    XH)))))) :: ((Npos (XI (XI (XI (XI (XO XH)))))) :: []))
+
+(** val k_http11 : bytes **)
+
+let k_http11 =
+  (Npos (XO (XO (XO (XI (XO (XO XH))))))) :: ((Npos (XO (XO (XI (XO (XI (XO
+    XH))))))) :: ((Npos (XO (XO (XI (XO (XI (XO XH))))))) :: ((Npos (XO (XO
+    (XO (XO (XI (XO XH))))))) :: ((Npos (XI (XI (XI (XI (XO
+    XH)))))) :: ((Npos (XI (XO (XO (XO (XI XH)))))) :: ((Npos (XO (XI (XI (XI
+    (XO XH)))))) :: ((Npos (XI (XO (XO (XO (XI XH)))))) :: [])))))))
+
+(** val k_host_sp : bytes **)
+
+let k_host_sp =
+  (Npos (XO (XO (XO (XI (XO (XO XH))))))) :: ((Npos (XI (XI (XI (XI (XO (XI
+    XH))))))) :: ((Npos (XI (XI (XO (XO (XI (XI XH))))))) :: ((Npos (XO (XO
+    (XI (XO (XI (XI XH))))))) :: ((Npos (XO (XI (XO (XI (XI
+    XH)))))) :: ((Npos (XO (XO (XO (XO (XO XH)))))) :: [])))))
+
+(** val c_colon : n **)
+
+let c_colon =
+  Npos (XO (XI (XO (XI (XI XH)))))
+
+(** val c_slash : n **)
+
+let c_slash =
+  Npos (XI (XI (XI (XI (XO XH)))))
+
+(** val c_qmark : n **)
+
+let c_qmark =
+  Npos (XI (XI (XI (XI (XI XH)))))
+
+(** val c_star : n **)
+
+let c_star =
+  Npos (XO (XI (XO (XI (XO XH)))))
+
+(** val c_lbr : n **)
+
+let c_lbr =
+  Npos (XI (XI (XO (XI (XI (XO XH))))))
+
+(** val c_rbr : n **)
+
+let c_rbr =
+  Npos (XI (XO (XI (XI (XI (XO XH))))))
+
+(** val c_sp : n **)
+
+let c_sp =
+  Npos (XO (XO (XO (XO (XO XH)))))
+
+(** val find_header_end : bytes -> n option **)
+
+let find_header_end b =
+  match h_find http_terminator b with
+  | Some i -> Some (N.add i (lenN http_terminator))
+  | None -> None
+
+type hrh =
+| RhOk of bytes * bytes * bytes list
+| RhTooLarge
+| RhClosed
+| RhPending of bytes
+
+(** val read_header : bytes -> bytes list -> bool -> hrh **)
+
+let rec read_header buf chunks eof =
+  match chunks with
+  | [] -> if eof then RhClosed else RhPending buf
+  | c :: cs ->
+    if h_nil c
+    then RhClosed
+    else let buf' = app buf c in
+         (match find_header_end buf' with
+          | Some e ->
+            if N.leb e http_max_header
+            then RhOk ((takeN e buf'), (dropN e buf'), cs)
+            else RhTooLarge
+          | None ->
+            if N.ltb http_max_header (lenN buf')
+            then RhTooLarge
+            else read_header buf' cs eof)
+
+(** val rechunk_fuel : nat -> n -> bytes -> bytes list **)
+
+let rec rechunk_fuel fuel n0 s =
+  match fuel with
+  | O -> s :: []
+  | S k ->
+    if N.leb (lenN s) n0
+    then s :: []
+    else (takeN n0 s) :: (rechunk_fuel k n0 (dropN n0 s))
+
+(** val rechunk : n -> bytes -> bytes list **)
+
+let rechunk n0 s =
+  if h_nil s
+  then []
+  else if N.eqb n0 N0 then s :: [] else rechunk_fuel (length s) n0 s
+
+(** val tcp_reads : bytes list -> bytes list **)
+
+let tcp_reads segments =
+  flat_map (rechunk http_read_chunk) segments
+
+(** val clean_host : bytes -> bytes **)
+
+let clean_host s =
+  h_trim_matches c_rbr (h_trim_matches c_lbr (h_trim s))
+
+(** val split_host_port : bytes -> n -> bytes * n **)
+
+let split_host_port value default =
+  match h_rfind_byte c_colon value with
+  | Some idx ->
+    if (&&) (h_contains_byte c_colon (takeN idx value))
+         (negb (h_contains_byte c_rbr value))
+    then (value, default)
+    else let host_part = takeN idx value in
+         let port_part = dropN (N.add idx (Npos XH)) value in
+         if h_nil port_part
+         then ((clean_host host_part), default)
+         else (match h_parse_u16 port_part with
+               | Some p -> ((clean_host host_part), p)
+               | None -> ((clean_host value), default))
+  | None -> ((clean_host value), default)
+
+(** val is_host_line : bytes -> bool **)
+
+let is_host_line l =
+  h_starts_with k_host_colon (h_to_lower l)
+
+(** val find_host_header : bytes list -> bytes option **)
+
+let rec find_host_header = function
+| [] -> None
+| l :: r ->
+  if is_host_line l
+  then Some (h_trim (dropN (Npos (XI (XO XH))) l))
+  else find_host_header r
+
+(** val is_authority_end : n -> bool **)
+
+let is_authority_end c =
+  (||) (N.eqb c c_slash) (N.eqb c c_qmark)
+
+(** val determine_target :
+    bytes -> bytes -> bytes list -> (((bytes * n) * bytes) * bool) hres **)
+
+let determine_target method0 target headers =
+  if h_eq_ignore_case method0 k_connect
+  then HOk
+         (((split_host_port target (Npos (XI (XI (XO (XI (XI (XI (XO (XI
+             XH)))))))))), []), true)
+  else let host_header = find_host_header headers in
+       let lower = h_to_lower target in
+       let is_http = h_starts_with k_http lower in
+       let is_https = h_starts_with k_https lower in
+       let (p, path) =
+         if (||) is_http is_https
+         then let without_scheme =
+                match h_find k_scheme_sep target with
+                | Some pos -> dropN (N.add pos (Npos (XI XH))) target
+                | None -> target
+              in
+              (match h_find_if is_authority_end without_scheme with
+               | Some pos ->
+                 let host = takeN pos without_scheme in
+                 let path = dropN pos without_scheme in
+                 ((host,
+                 (if is_https
+                  then Npos (XI (XI (XO (XI (XI (XI (XO (XI XH))))))))
+                  else Npos (XO (XO (XO (XO (XI (XO XH)))))))), path)
+               | None ->
+                 let path = c_slash :: [] in
+                 ((without_scheme,
+                 (if is_https
+                  then Npos (XI (XI (XO (XI (XI (XI (XO (XI XH))))))))
+                  else Npos (XO (XO (XO (XO (XI (XO XH)))))))), path))
+         else (match host_header with
+               | Some h ->
+                 ((h, (Npos (XO (XO (XO (XO (XI (XO XH)))))))), target)
+               | None ->
+                 (([], (Npos (XO (XO (XO (XO (XI (XO XH)))))))), target))
+       in
+       let (host, port) = p in
+       if h_nil host
+       then HErr
+       else let path' =
+              if (||) (h_starts_with (c_slash :: []) path)
+                   (h_starts_with (c_star :: []) path)
+              then path
+              else c_slash :: path
+            in
+            HOk (((split_host_port host port), path'), false)
+
+type hparsed = { hp_method : bytes; hp_version : bytes; hp_host : bytes;
+                 hp_port : n; hp_path : bytes; hp_connect : bool;
+                 hp_headers : bytes list; hp_body : bytes }
+
+(** val parse_http_request : bytes -> bytes -> hparsed hres **)
+
+let parse_http_request header body =
+  match h_split_crlf header with
+  | [] -> HErr
+  | request_line :: lines0 ->
+    (match h_split_whitespace request_line with
+     | [] -> HErr
+     | method0 :: l ->
+       (match l with
+        | [] -> HErr
+        | target :: rest ->
+          let version = match rest with
+                        | [] -> k_http11
+                        | v :: _ -> v in
+          let header_lines0 = filter (fun l0 -> negb (h_nil l0)) lines0 in
+          (match determine_target method0 target header_lines0 with
+           | HOk a ->
+             let (p, is_connect) = a in
+             let (p0, path) = p in
+             let (host, port) = p0 in
+             HOk { hp_method = method0; hp_version = version; hp_host = host;
+             hp_port = port; hp_path = path; hp_connect = is_connect;
+             hp_headers = header_lines0; hp_body = body }
+           | HErr -> HErr)))
+
+(** val host_header_value : bytes -> n -> bytes **)
+
+let host_header_value host port =
+  let h =
+    if h_contains_byte c_colon host
+    then c_lbr :: (app host (c_rbr :: []))
+    else host
+  in
+  if (||) (N.eqb port (Npos (XO (XO (XO (XO (XI (XO XH))))))))
+       (N.eqb port (Npos (XI (XI (XO (XI (XI (XI (XO (XI XH))))))))))
+  then h
+  else app h (c_colon :: (h_dec port))
+
+(** val host_line_out : bytes -> n -> bytes **)
+
+let host_line_out host port =
+  app k_host_sp (app (host_header_value host port) k_crlf)
+
+(** val rewrite_line : bytes -> bytes -> bytes **)
+
+let rewrite_line hv l =
+  if h_nil l then [] else if is_host_line l then hv else app l k_crlf
+
+(** val build_forward_request : hparsed -> bytes **)
+
+let build_forward_request r =
+  let hv = host_line_out r.hp_host r.hp_port in
+  app
+    (app r.hp_method
+      (c_sp :: (app (if h_nil r.hp_path then c_slash :: [] else r.hp_path)
+                 (c_sp :: (app r.hp_version k_crlf)))))
+    (app (concat (map (rewrite_line hv) r.hp_headers))
+      (app (if existsb is_host_line r.hp_headers then [] else hv) k_crlf))
+
+type hev =
+| EvOpen of bytes * n
+| EvReply of n
+| EvSend of bytes
+
+(** val fwd_loop : bytes list -> hev list **)
+
+let rec fwd_loop = function
+| [] -> []
+| c :: cs -> if h_nil c then [] else (EvSend c) :: (fwd_loop cs)
+
+(** val opt_send : bytes -> hev list **)
+
+let opt_send b =
+  if h_nil b then [] else (EvSend b) :: []
+
+(** val handle : bytes list -> bool -> bool -> hev list **)
+
+let handle chunks eof open_ok =
+  match read_header [] chunks eof with
+  | RhOk (h, rest, remaining) ->
+    (match parse_http_request h rest with
+     | HOk r ->
+       (EvOpen (r.hp_host,
+         r.hp_port)) :: (if open_ok
+                         then app
+                                (if r.hp_connect
+                                 then (EvReply (Npos (XO (XO (XO (XI (XO (XO
+                                        (XI XH))))))))) :: []
+                                 else (EvSend (build_forward_request r)) :: [])
+                                (app (opt_send r.hp_body)
+                                  (fwd_loop remaining))
+                         else (EvReply (Npos (XO (XI (XI (XO (XI (XI (XI (XI
+                                XH)))))))))) :: [])
+     | HErr -> [])
+  | _ -> []
+
+(** val sent_bytes : hev list -> bytes **)
+
+let rec sent_bytes = function
+| [] -> []
+| h :: t' ->
+  (match h with
+   | EvSend b -> app b (sent_bytes t')
+   | _ -> sent_bytes t')
+
+type hostname =
+| HName of bytes
+| HV6 of bytes
+
+type authority = { au_host : hostname; au_port : n list option }
+
+type rtarget =
+| TAuthority of authority
+| TAbsolute of bool * bytes * authority * bytes
+| TOrigin of bytes
+
+type host_hdr = { hh_name : bytes; hh_pre : bytes; hh_auth : authority;
+                  hh_post : bytes }
+
+type hreq = { r_method : bytes; r_target : rtarget; r_version : bytes;
+              r_before : bytes list; r_host : host_hdr option;
+              r_after : bytes list; r_body : bytes }
+
+(** val digits_text : n list -> bytes **)
+
+let digits_text ds =
+  map (fun d -> N.add (Npos (XO (XO (XO (XO (XI XH)))))) d) ds
+
+(** val digits_value : n list -> n **)
+
+let digits_value ds =
+  fold_left (fun acc d -> N.add (N.mul acc (Npos (XO (XI (XO XH))))) d) ds N0
+
+(** val render_host : hostname -> bytes **)
+
+let render_host = function
+| HName s -> s
+| HV6 s -> c_lbr :: (app s (c_rbr :: []))
+
+(** val render_auth : authority -> bytes **)
+
+let render_auth a =
+  app (render_host a.au_host)
+    (match a.au_port with
+     | Some ds -> c_colon :: (digits_text ds)
+     | None -> [])
+
+(** val render_target : rtarget -> bytes **)
+
+let render_target = function
+| TAuthority a -> render_auth a
+| TAbsolute (_, sch, a, pq) ->
+  app sch (app k_scheme_sep (app (render_auth a) pq))
+| TOrigin p -> p
+
+(** val render_host_line : host_hdr -> bytes **)
+
+let render_host_line hh =
+  app hh.hh_name
+    (c_colon :: (app hh.hh_pre (app (render_auth hh.hh_auth) hh.hh_post)))
+
+(** val header_lines : hreq -> bytes list **)
+
+let header_lines r =
+  app r.r_before
+    (match r.r_host with
+     | Some hh -> (render_host_line hh) :: r.r_after
+     | None -> r.r_after)
+
+(** val render_lines : bytes list -> bytes **)
+
+let render_lines ls =
+  concat (map (fun l -> app l k_crlf) ls)
+
+(** val render_head : hreq -> bytes **)
+
+let render_head r =
+  app
+    (app r.r_method
+      (c_sp :: (app (render_target r.r_target)
+                 (c_sp :: (app r.r_version k_crlf)))))
+    (app (render_lines (header_lines r)) k_crlf)
+
+(** val render : hreq -> bytes **)
+
+let render r =
+  app (render_head r) r.r_body
+
+(** val host_text : hostname -> bytes **)
+
+let host_text = function
+| HName s -> s
+| HV6 s -> s
+
+(** val auth_port : authority -> n -> n **)
+
+let auth_port a default =
+  match a.au_port with
+  | Some l -> (match l with
+               | [] -> default
+               | d :: ds -> digits_value (d :: ds))
+  | None -> default
+
+(** val auth_target : authority -> n -> bytes * n **)
+
+let auth_target a default =
+  ((host_text a.au_host), (auth_port a default))
+
+(** val is_connect_req : hreq -> bool **)
+
+let is_connect_req r =
+  match r.r_target with
+  | TAuthority _ -> true
+  | _ -> false
+
+(** val spec_target : hreq -> (bytes * n) option **)
+
+let spec_target r =
+  match r.r_target with
+  | TAuthority a ->
+    Some (auth_target a (Npos (XI (XI (XO (XI (XI (XI (XO (XI XH))))))))))
+  | TAbsolute (https, _, a, _) ->
+    Some
+      (auth_target a
+        (if https
+         then Npos (XI (XI (XO (XI (XI (XI (XO (XI XH))))))))
+         else Npos (XO (XO (XO (XO (XI (XO XH))))))))
+  | TOrigin _ ->
+    (match r.r_host with
+     | Some hh ->
+       Some (auth_target hh.hh_auth (Npos (XO (XO (XO (XO (XI (XO XH))))))))
+     | None -> None)
+
+(** val spec_path : hreq -> bytes **)
+
+let spec_path r =
+  match r.r_target with
+  | TAuthority _ -> []
+  | TAbsolute (_, _, _, pq) ->
+    (match pq with
+     | [] -> c_slash :: []
+     | c :: _ -> if N.eqb c c_slash then pq else c_slash :: pq)
+  | TOrigin p -> p
+
+(** val norm_host_hdr : hostname -> n -> host_hdr **)
+
+let norm_host_hdr host port =
+  { hh_name = ((Npos (XO (XO (XO (XI (XO (XO XH))))))) :: ((Npos (XI (XI (XI
+    (XI (XO (XI XH))))))) :: ((Npos (XI (XI (XO (XO (XI (XI
+    XH))))))) :: ((Npos (XO (XO (XI (XO (XI (XI XH))))))) :: [])))); hh_pre =
+    (c_sp :: []); hh_auth = { au_host = host; au_port =
+    (if (||) (N.eqb port (Npos (XO (XO (XO (XO (XI (XO XH))))))))
+          (N.eqb port (Npos (XI (XI (XO (XI (XI (XI (XO (XI XH))))))))))
+     then None
+     else Some
+            (map (fun c -> N.sub c (Npos (XO (XO (XO (XO (XI XH)))))))
+              (h_dec port))) }; hh_post = [] }
+
+(** val target_authority : hreq -> (authority * n) option **)
+
+let target_authority r =
+  match r.r_target with
+  | TAuthority a ->
+    Some (a, (Npos (XI (XI (XO (XI (XI (XI (XO (XI XH))))))))))
+  | TAbsolute (https, _, a, _) ->
+    Some (a,
+      (if https
+       then Npos (XI (XI (XO (XI (XI (XI (XO (XI XH))))))))
+       else Npos (XO (XO (XO (XO (XI (XO XH))))))))
+  | TOrigin _ ->
+    (match r.r_host with
+     | Some hh -> Some (hh.hh_auth, (Npos (XO (XO (XO (XO (XI (XO XH))))))))
+     | None -> None)
+
+(** val origin_form : hreq -> hreq **)
+
+let origin_form r =
+  match target_authority r with
+  | Some p ->
+    let (a, default) = p in
+    let hh = norm_host_hdr a.au_host (auth_port a default) in
+    (match r.r_host with
+     | Some _ ->
+       { r_method = r.r_method; r_target = (TOrigin (spec_path r));
+         r_version = r.r_version; r_before = r.r_before; r_host = (Some hh);
+         r_after = r.r_after; r_body = r.r_body }
+     | None ->
+       { r_method = r.r_method; r_target = (TOrigin (spec_path r));
+         r_version = r.r_version; r_before = (app r.r_before r.r_after);
+         r_host = (Some hh); r_after = []; r_body = r.r_body })
+  | None -> r
+
+(** val tokenb : bytes -> bool **)
+
+let tokenb s =
+  (&&) (negb (h_nil s))
+    (forallb (fun c ->
+      (&&) (negb (h_is_ws c))
+        (N.ltb c (Npos (XO (XO (XO (XO (XO (XO (XO XH)))))))))) s)
+
+(** val host_charb : n -> bool **)
+
+let host_charb c =
+  (&&)
+    ((&&)
+      ((&&)
+        ((&&)
+          ((&&)
+            ((&&) (negb (h_is_ws c))
+              (N.ltb c (Npos (XO (XO (XO (XO (XO (XO (XO XH))))))))))
+            (negb (N.eqb c c_colon))) (negb (N.eqb c c_slash)))
+        (negb (N.eqb c c_qmark))) (negb (N.eqb c c_lbr)))
+    (negb (N.eqb c c_rbr))
+
+(** val v6_charb : n -> bool **)
+
+let v6_charb c =
+  (&&)
+    ((&&)
+      ((&&)
+        ((&&)
+          ((&&) (negb (h_is_ws c))
+            (N.ltb c (Npos (XO (XO (XO (XO (XO (XO (XO XH))))))))))
+          (negb (N.eqb c c_slash))) (negb (N.eqb c c_qmark)))
+      (negb (N.eqb c c_lbr))) (negb (N.eqb c c_rbr))
+
+(** val wf_hostb : hostname -> bool **)
+
+let wf_hostb = function
+| HName s -> (&&) (negb (h_nil s)) (forallb host_charb s)
+| HV6 s -> (&&) (h_contains_byte c_colon s) (forallb v6_charb s)
+
+(** val wf_digitsb : n list -> bool **)
+
+let wf_digitsb ds =
+  (&&) (forallb (fun d -> N.ltb d (Npos (XO (XI (XO XH))))) ds)
+    (N.leb (digits_value ds) (Npos (XI (XI (XI (XI (XI (XI (XI (XI (XI (XI
+      (XI (XI (XI (XI (XI XH)))))))))))))))))
+
+(** val wf_authb : authority -> bool **)
+
+let wf_authb a =
+  (&&) (wf_hostb a.au_host)
+    (match a.au_port with
+     | Some ds -> wf_digitsb ds
+     | None -> true)
+
+(** val owsb : bytes -> bool **)
+
+let owsb s =
+  forallb (fun c ->
+    (||) (N.eqb c (Npos (XO (XO (XO (XO (XO XH)))))))
+      (N.eqb c (Npos (XI (XO (XO XH)))))) s
+
+(** val wf_host_hdrb : host_hdr -> bool **)
+
+let wf_host_hdrb hh =
+  (&&)
+    ((&&)
+      ((&&)
+        (bytes_eqb (h_to_lower hh.hh_name) ((Npos (XO (XO (XO (XI (XO (XI
+          XH))))))) :: ((Npos (XI (XI (XI (XI (XO (XI XH))))))) :: ((Npos (XI
+          (XI (XO (XO (XI (XI XH))))))) :: ((Npos (XO (XO (XI (XO (XI (XI
+          XH))))))) :: []))))) (owsb hh.hh_pre)) (owsb hh.hh_post))
+    (wf_authb hh.hh_auth)
+
+(** val plain_lineb : bytes -> bool **)
+
+let plain_lineb l =
+  (&&)
+    ((&&) (negb (h_nil l))
+      (forallb (fun c ->
+        (&&)
+          ((&&) (negb (N.eqb c (Npos (XI (XO (XI XH))))))
+            (negb (N.eqb c (Npos (XO (XI (XO XH)))))))
+          (N.ltb c (Npos (XO (XO (XO (XO (XO (XO (XO XH)))))))))) l))
+    (negb (is_host_line l))
+
+(** val wf_pqb : bytes -> bool **)
+
+let wf_pqb pq =
+  (&&)
+    (forallb (fun c ->
+      (&&) (negb (h_is_ws c))
+        (N.ltb c (Npos (XO (XO (XO (XO (XO (XO (XO XH)))))))))) pq)
+    (match pq with
+     | [] -> true
+     | c :: _ -> is_authority_end c)
+
+(** val wf_schemeb : bool -> bytes -> bool **)
+
+let wf_schemeb https sch =
+  bytes_eqb (h_to_lower sch)
+    (if https
+     then (Npos (XO (XO (XO (XI (XO (XI XH))))))) :: ((Npos (XO (XO (XI (XO
+            (XI (XI XH))))))) :: ((Npos (XO (XO (XI (XO (XI (XI
+            XH))))))) :: ((Npos (XO (XO (XO (XO (XI (XI XH))))))) :: ((Npos
+            (XI (XI (XO (XO (XI (XI XH))))))) :: []))))
+     else (Npos (XO (XO (XO (XI (XO (XI XH))))))) :: ((Npos (XO (XO (XI (XO
+            (XI (XI XH))))))) :: ((Npos (XO (XO (XI (XO (XI (XI
+            XH))))))) :: ((Npos (XO (XO (XO (XO (XI (XI XH))))))) :: []))))
+
+(** val wf_targetb : hreq -> bool **)
+
+let wf_targetb r =
+  match r.r_target with
+  | TAuthority a -> (&&) (h_eq_ignore_case r.r_method k_connect) (wf_authb a)
+  | TAbsolute (https, sch, a, pq) ->
+    (&&)
+      ((&&)
+        ((&&) (negb (h_eq_ignore_case r.r_method k_connect))
+          (wf_schemeb https sch)) (wf_authb a)) (wf_pqb pq)
+  | TOrigin p ->
+    (&&)
+      ((&&) ((&&) (negb (h_eq_ignore_case r.r_method k_connect)) (tokenb p))
+        ((||) (h_starts_with (c_slash :: []) p)
+          (h_starts_with (c_star :: []) p)))
+      (match r.r_host with
+       | Some _ -> true
+       | None -> false)
+
+(** val wf_req : hreq -> bool **)
+
+let wf_req r =
+  (&&)
+    ((&&)
+      ((&&)
+        ((&&) ((&&) (tokenb r.r_method) (tokenb r.r_version)) (wf_targetb r))
+        (forallb plain_lineb r.r_before)) (forallb plain_lineb r.r_after))
+    (match r.r_host with
+     | Some hh -> wf_host_hdrb hh
+     | None -> true)
+
+(** val forward_of : hreq -> (((bytes * n) * bool) * bytes) hres **)
+
+let forward_of r =
+  match parse_http_request (render_head r) r.r_body with
+  | HOk p ->
+    HOk (((p.hp_host, p.hp_port), p.hp_connect),
+      (if p.hp_connect then [] else build_forward_request p))
+  | HErr -> HErr
+
+(** val split_host_port_cur : bytes -> n -> bytes * n **)
+
+let split_host_port_cur value default =
+  match h_rfind_byte c_colon value with
+  | Some idx ->
+    if (&&) (h_contains_byte c_colon (takeN idx value))
+         (negb (h_contains_byte c_rbr value))
+    then (value, default)
+    else (match h_parse_u16 (dropN (N.add idx (Npos XH)) value) with
+          | Some p -> ((clean_host (takeN idx value)), p)
+          | None -> ((clean_host value), default))
+  | None -> ((clean_host value), default)
+
+(** val find_host_header_cur : bytes list -> bytes option **)
+
+let rec find_host_header_cur = function
+| [] -> None
+| l :: r ->
+  (match h_strip_prefix ((Npos (XO (XO (XO (XI (XO (XO XH))))))) :: ((Npos
+           (XI (XI (XI (XI (XO (XI XH))))))) :: ((Npos (XI (XI (XO (XO (XI
+           (XI XH))))))) :: ((Npos (XO (XO (XI (XO (XI (XI
+           XH))))))) :: ((Npos (XO (XI (XO (XI (XI XH)))))) :: []))))) l with
+   | Some rest -> Some (h_trim rest)
+   | None ->
+     (match h_strip_prefix ((Npos (XO (XO (XO (XI (XO (XI XH))))))) :: ((Npos
+              (XI (XI (XI (XI (XO (XI XH))))))) :: ((Npos (XI (XI (XO (XO (XI
+              (XI XH))))))) :: ((Npos (XO (XO (XI (XO (XI (XI
+              XH))))))) :: ((Npos (XO (XI (XO (XI (XI XH)))))) :: []))))) l with
+      | Some rest -> Some (h_trim rest)
+      | None -> find_host_header_cur r))
+
+(** val determine_target_cur :
+    bytes -> bytes -> bytes list -> (((bytes * n) * bytes) * bool) hres **)
+
+let determine_target_cur method0 target headers =
+  if h_eq_ignore_case method0 k_connect
+  then HOk
+         (((split_host_port_cur target (Npos (XI (XI (XO (XI (XI (XI (XO (XI
+             XH)))))))))), []), true)
+  else let host_header = find_host_header_cur headers in
+       let is_http = h_starts_with k_http target in
+       let is_https = h_starts_with k_https target in
+       let (p, path) =
+         if (||) is_http is_https
+         then let without_scheme =
+                match h_find k_scheme_sep target with
+                | Some pos -> dropN (N.add pos (Npos (XI XH))) target
+                | None -> target
+              in
+              (match h_find_if (fun c -> N.eqb c c_slash) without_scheme with
+               | Some pos ->
+                 let host = takeN pos without_scheme in
+                 let path = dropN pos without_scheme in
+                 ((host,
+                 (if is_https
+                  then Npos (XI (XI (XO (XI (XI (XI (XO (XI XH))))))))
+                  else Npos (XO (XO (XO (XO (XI (XO XH)))))))), path)
+               | None ->
+                 let path = c_slash :: [] in
+                 ((without_scheme,
+                 (if is_https
+                  then Npos (XI (XI (XO (XI (XI (XI (XO (XI XH))))))))
+                  else Npos (XO (XO (XO (XO (XI (XO XH)))))))), path))
+         else (match host_header with
+               | Some h ->
+                 ((h, (Npos (XO (XO (XO (XO (XI (XO XH)))))))), target)
+               | None ->
+                 (([], (Npos (XO (XO (XO (XO (XI (XO XH)))))))), target))
+       in
+       let (host, port) = p in
+       if h_nil host
+       then HErr
+       else let path' =
+              if (||) (h_starts_with (c_slash :: []) path)
+                   (h_starts_with (c_star :: []) path)
+              then path
+              else c_slash :: path
+            in
+            HOk (((split_host_port_cur host port), path'), false)
+
+(** val parse_http_request_cur : bytes -> bytes -> hparsed hres **)
+
+let parse_http_request_cur header body =
+  match h_split_crlf header with
+  | [] -> HErr
+  | request_line :: lines0 ->
+    (match h_split_whitespace request_line with
+     | [] -> HErr
+     | method0 :: l ->
+       (match l with
+        | [] -> HErr
+        | target :: rest ->
+          let version = match rest with
+                        | [] -> k_http11
+                        | v :: _ -> v in
+          let header_lines0 = filter (fun l0 -> negb (h_nil l0)) lines0 in
+          (match determine_target_cur method0 target header_lines0 with
+           | HOk a ->
+             let (p, is_connect) = a in
+             let (p0, path) = p in
+             let (host, port) = p0 in
+             HOk { hp_method = method0; hp_version = version; hp_host = host;
+             hp_port = port; hp_path = path; hp_connect = is_connect;
+             hp_headers = header_lines0; hp_body = body }
+           | HErr -> HErr)))
+
+(** val host_line_out_cur : bytes -> n -> bytes **)
+
+let host_line_out_cur host port =
+  app k_host_sp
+    (app
+      (if (||) (N.eqb port (Npos (XO (XO (XO (XO (XI (XO XH))))))))
+            (N.eqb port (Npos (XI (XI (XO (XI (XI (XI (XO (XI XH))))))))))
+       then host
+       else app host (c_colon :: (h_dec port))) k_crlf)
+
+(** val build_forward_request_cur : hparsed -> bytes **)
+
+let build_forward_request_cur r =
+  let hv = host_line_out_cur r.hp_host r.hp_port in
+  app
+    (app r.hp_method
+      (c_sp :: (app (if h_nil r.hp_path then c_slash :: [] else r.hp_path)
+                 (c_sp :: (app r.hp_version k_crlf)))))
+    (app (concat (map (rewrite_line hv) r.hp_headers))
+      (app (if existsb is_host_line r.hp_headers then [] else hv) k_crlf))
+
+(** val read_header_cur : bytes -> bytes list -> bool -> hrh **)
+
+let rec read_header_cur buf chunks eof =
+  match chunks with
+  | [] -> if eof then RhClosed else RhPending buf
+  | c :: cs ->
+    if h_nil c
+    then RhClosed
+    else let buf' = app buf c in
+         if N.ltb http_max_header (lenN buf')
+         then RhTooLarge
+         else (match find_header_end buf' with
+               | Some e -> RhOk ((takeN e buf'), (dropN e buf'), cs)
+               | None -> read_header_cur buf' cs eof)
+
+(** val handle_cur : bytes list -> bool -> bool -> hev list **)
+
+let handle_cur chunks eof open_ok =
+  match read_header_cur [] chunks eof with
+  | RhOk (h, rest, remaining) ->
+    (match parse_http_request_cur h rest with
+     | HOk r ->
+       (EvOpen (r.hp_host,
+         r.hp_port)) :: (if open_ok
+                         then app
+                                (if r.hp_connect
+                                 then (EvReply (Npos (XO (XO (XO (XI (XO (XO
+                                        (XI XH))))))))) :: []
+                                 else app ((EvSend
+                                        (build_forward_request_cur r)) :: [])
+                                        (opt_send r.hp_body))
+                                (fwd_loop remaining)
+                         else (EvReply (Npos (XO (XI (XI (XO (XI (XI (XI (XI
+                                XH)))))))))) :: [])
+     | HErr -> [])
+  | _ -> []
+
+type tid = nat
+
+type witem = tid * frame
+
+type res =
+| ResOk
+| ResClosed
+| ResIo
+| ResErrOpen
+| ResTimeout
+| ResData
+| ResEof
+| ResNoStream
+
+type inev =
+| InSynAck of tid * bool
+| InPush of tid
+| InFin of tid
+| InAlert
+| InEof
+| InErr
+
+type call =
+| CWrite of frame
+| CData of bytes
+| COpen
+| CAwait
+| CTimeout
+| CRead
+| CClose
+| CDisableBuf
+| CEnableBuf
+| CFail
+| CFeed of inev
+
+type after =
+| AfterClose
+| AfterIoErr
+| AfterRecv
+
+type wk =
+| WkPlain
+| WkOpen
+
+type pc =
+| PIdle
+| PW0 of wk * frame
+| PW1 of wk * frame
+| PW2 of wk * frame
+| PW2wait of wk * frame
+| PW3 of wk * frame
+| PW4 of wk * witem list
+| PE0 of after * wk
+| PC1 of after * wk
+| PC2 of after * wk
+| PC2wait of after * wk
+| PO1 of n
+
+type task = { t_prog : call list; t_pc : pc; t_res : res list;
+              t_sid : n option; t_verdict : res option; t_rq : nat;
+              t_rclosed : bool }
+
+type state = { buffering : bool; pending : witem list; wr0 : tid option;
+               waiters : tid list; pkt : n; wire : (n * witem list) list;
+               closed : bool; shut : bool; failing : bool; next_sid : 
+               n; table : (n * tid) list; ralive : bool;
+               tasks : (tid -> task); lin : witem list }
+
+(** val rtid : tid **)
+
+let rtid =
+  O
+
+(** val idle_task : call list -> task **)
+
+let idle_task prog =
+  { t_prog = prog; t_pc = PIdle; t_res = []; t_sid = None; t_verdict = None;
+    t_rq = O; t_rclosed = false }
+
+(** val upd : (tid -> task) -> tid -> task -> tid -> task **)
+
+let upd f t v t' =
+  if Nat.eqb t' t then v else f t'
+
+(** val set_tasks : state -> (tid -> task) -> state **)
+
+let set_tasks s ts =
+  { buffering = s.buffering; pending = s.pending; wr0 = s.wr0; waiters =
+    s.waiters; pkt = s.pkt; wire = s.wire; closed = s.closed; shut = s.shut;
+    failing = s.failing; next_sid = s.next_sid; table = s.table; ralive =
+    s.ralive; tasks = ts; lin = s.lin }
+
+(** val set_task : state -> tid -> task -> state **)
+
+let set_task s t v =
+  set_tasks s (upd s.tasks t v)
+
+(** val with_pc : task -> pc -> task **)
+
+let with_pc x p =
+  { t_prog = x.t_prog; t_pc = p; t_res = x.t_res; t_sid = x.t_sid;
+    t_verdict = x.t_verdict; t_rq = x.t_rq; t_rclosed = x.t_rclosed }
+
+(** val with_res : task -> res -> task **)
+
+let with_res x r =
+  { t_prog = x.t_prog; t_pc = PIdle; t_res = (app x.t_res (r :: [])); t_sid =
+    x.t_sid; t_verdict = x.t_verdict; t_rq = x.t_rq; t_rclosed = x.t_rclosed }
+
+(** val with_prog : task -> call list -> task **)
+
+let with_prog x p =
+  { t_prog = p; t_pc = x.t_pc; t_res = x.t_res; t_sid = x.t_sid; t_verdict =
+    x.t_verdict; t_rq = x.t_rq; t_rclosed = x.t_rclosed }
+
+(** val with_sid : task -> n -> task **)
+
+let with_sid x sid =
+  { t_prog = x.t_prog; t_pc = x.t_pc; t_res = x.t_res; t_sid = (Some sid);
+    t_verdict = None; t_rq = O; t_rclosed = false }
+
+(** val with_verdict : task -> res option -> task **)
+
+let with_verdict x v =
+  { t_prog = x.t_prog; t_pc = x.t_pc; t_res = x.t_res; t_sid = x.t_sid;
+    t_verdict = v; t_rq = x.t_rq; t_rclosed = x.t_rclosed }
+
+(** val with_rq : task -> nat -> bool -> task **)
+
+let with_rq x q c =
+  { t_prog = x.t_prog; t_pc = x.t_pc; t_res = x.t_res; t_sid = x.t_sid;
+    t_verdict = x.t_verdict; t_rq = q; t_rclosed = c }
+
+(** val set_pc : state -> tid -> pc -> state **)
+
+let set_pc s t p =
+  set_task s t (with_pc (s.tasks t) p)
+
+(** val finish : state -> tid -> res -> state **)
+
+let finish s t r =
+  set_task s t (with_res (s.tasks t) r)
+
+(** val set_flags : state -> bool -> bool -> bool -> bool -> bool -> state **)
+
+let set_flags s b c sh fl ra =
+  { buffering = b; pending = s.pending; wr0 = s.wr0; waiters = s.waiters;
+    pkt = s.pkt; wire = s.wire; closed = c; shut = sh; failing = fl;
+    next_sid = s.next_sid; table = s.table; ralive = ra; tasks = s.tasks;
+    lin = s.lin }
+
+(** val set_buffering : state -> bool -> state **)
+
+let set_buffering s b =
+  set_flags s b s.closed s.shut s.failing s.ralive
+
+(** val set_closed : state -> state **)
+
+let set_closed s =
+  set_flags s s.buffering true s.shut s.failing s.ralive
+
+(** val set_shut : state -> state **)
+
+let set_shut s =
+  set_flags s s.buffering s.closed true s.failing s.ralive
+
+(** val set_failing : state -> state **)
+
+let set_failing s =
+  set_flags s s.buffering s.closed s.shut true s.ralive
+
+(** val set_rdead : state -> state **)
+
+let set_rdead s =
+  set_flags s s.buffering s.closed s.shut s.failing false
+
+(** val set_queue : state -> witem list -> witem list -> state **)
+
+let set_queue s p l =
+  { buffering = s.buffering; pending = p; wr0 = s.wr0; waiters = s.waiters;
+    pkt = s.pkt; wire = s.wire; closed = s.closed; shut = s.shut; failing =
+    s.failing; next_sid = s.next_sid; table = s.table; ralive = s.ralive;
+    tasks = s.tasks; lin = l }
+
+(** val set_lock : state -> tid option -> tid list -> state **)
+
+let set_lock s w ws =
+  { buffering = s.buffering; pending = s.pending; wr0 = w; waiters = ws;
+    pkt = s.pkt; wire = s.wire; closed = s.closed; shut = s.shut; failing =
+    s.failing; next_sid = s.next_sid; table = s.table; ralive = s.ralive;
+    tasks = s.tasks; lin = s.lin }
+
+(** val set_wire : state -> n -> (n * witem list) list -> state **)
+
+let set_wire s k w =
+  { buffering = s.buffering; pending = s.pending; wr0 = s.wr0; waiters =
+    s.waiters; pkt = k; wire = w; closed = s.closed; shut = s.shut; failing =
+    s.failing; next_sid = s.next_sid; table = s.table; ralive = s.ralive;
+    tasks = s.tasks; lin = s.lin }
+
+(** val set_table : state -> n -> (n * tid) list -> state **)
+
+let set_table s n0 tb =
+  { buffering = s.buffering; pending = s.pending; wr0 = s.wr0; waiters =
+    s.waiters; pkt = s.pkt; wire = s.wire; closed = s.closed; shut = s.shut;
+    failing = s.failing; next_sid = n0; table = tb; ralive = s.ralive;
+    tasks = s.tasks; lin = s.lin }
+
+(** val finish_close : state -> tid -> after -> state **)
+
+let finish_close s t = function
+| AfterClose -> finish s t ResOk
+| AfterIoErr -> finish s t ResIo
+| AfterRecv -> set_rdead (set_pc s t PIdle)
+
+(** val release_ws : tid list -> state -> state **)
+
+let rec release_ws ws s =
+  match ws with
+  | [] -> set_lock s None []
+  | w :: ws' ->
+    (match (s.tasks w).t_pc with
+     | PW2wait (k, f) -> set_pc (set_lock s (Some w) ws') w (PW3 (k, f))
+     | PC2wait (a, _) -> release_ws ws' (finish_close (set_shut s) w a)
+     | _ -> set_lock s None [])
+
+(** val release : state -> state **)
+
+let release s =
+  release_ws s.waiters s
+
+(** val enter_close : state -> tid -> after -> wk -> state **)
+
+let enter_close s t a k =
+  if s.closed
+  then finish_close s t a
+  else set_pc (set_closed s) t (PC1 (a, k))
+
+(** val drain : (n * tid) list -> (tid -> task) -> tid -> task **)
+
+let rec drain tb ts =
+  match tb with
+  | [] -> ts
+  | p :: tb' ->
+    let (_, o) = p in
+    let x = ts o in
+    let v = match x.t_verdict with
+            | Some r -> Some r
+            | None -> Some ResClosed
+    in
+    drain tb' (upd ts o (with_rq (with_verdict x v) x.t_rq true))
+
+(** val lookup_owner : (n * tid) list -> tid -> n option **)
+
+let rec lookup_owner tb o =
+  match tb with
+  | [] -> None
+  | p :: tb' ->
+    let (sid, o') = p in if Nat.eqb o' o then Some sid else lookup_owner tb' o
+
+(** val remove_owner : (n * tid) list -> tid -> (n * tid) list **)
+
+let remove_owner tb o =
+  filter (fun p -> negb (Nat.eqb (snd p) o)) tb
+
+(** val pc_is_idle : pc -> bool **)
+
+let pc_is_idle = function
+| PIdle -> true
+| _ -> false
+
+(** val feed_ev : state -> inev -> state **)
+
+let feed_ev s ev =
+  if negb s.ralive
+  then s
+  else (match ev with
+        | InSynAck (o, ok) ->
+          (match lookup_owner s.table o with
+           | Some _ ->
+             let x = s.tasks o in
+             (match x.t_verdict with
+              | Some _ -> s
+              | None ->
+                set_task s o
+                  (with_verdict x (Some (if ok then ResOk else ResErrOpen))))
+           | None -> s)
+        | InPush o ->
+          (match lookup_owner s.table o with
+           | Some _ ->
+             let x = s.tasks o in
+             set_task s o (with_rq x (S x.t_rq) x.t_rclosed)
+           | None -> s)
+        | InFin o ->
+          (match lookup_owner s.table o with
+           | Some _ ->
+             let x = s.tasks o in
+             set_table (set_task s o (with_rq x x.t_rq true)) s.next_sid
+               (remove_owner s.table o)
+           | None -> s)
+        | InErr ->
+          if pc_is_idle (s.tasks rtid).t_pc
+          then set_pc s rtid (PE0 (AfterRecv, WkPlain))
+          else s
+        | _ ->
+          if pc_is_idle (s.tasks rtid).t_pc
+          then enter_close s rtid AfterRecv WkPlain
+          else s)
+
+(** val syn_frame : n -> frame **)
+
+let syn_frame sid =
+  { fcmd = Syn; fsid = sid; fdata = [] }
+
+(** val psh_frame : n -> bytes -> frame **)
+
+let psh_frame sid d =
+  { fcmd = Push; fsid = sid; fdata = d }
+
+(** val start_call : state -> tid -> call -> call list -> state option **)
+
+let start_call s t c rest =
+  let x = with_prog (s.tasks t) rest in
+  let s0 = set_task s t x in
+  (match c with
+   | CWrite f -> Some (set_pc s0 t (PW0 (WkPlain, f)))
+   | CData d ->
+     (match x.t_sid with
+      | Some sid -> Some (set_pc s0 t (PW0 (WkPlain, (psh_frame sid d))))
+      | None -> Some (finish s0 t ResNoStream))
+   | COpen ->
+     if s.closed
+     then Some (finish s0 t ResClosed)
+     else let sid = s.next_sid in
+          let s1 =
+            set_table s0 (N.add sid (Npos XH)) (app s.table ((sid, t) :: []))
+          in
+          Some (set_task s1 t (with_pc (with_sid x sid) (PO1 sid)))
+   | CAwait ->
+     (match x.t_verdict with
+      | Some r -> Some (finish s0 t r)
+      | None -> None)
+   | CTimeout ->
+     (match x.t_verdict with
+      | Some r -> Some (finish s0 t r)
+      | None ->
+        Some
+          (finish (set_task s0 t (with_verdict x (Some ResTimeout))) t
+            ResTimeout))
+   | CRead ->
+     (match x.t_rq with
+      | O -> if x.t_rclosed then Some (finish s0 t ResEof) else None
+      | S q ->
+        Some (finish (set_task s0 t (with_rq x q x.t_rclosed)) t ResData))
+   | CClose -> Some (enter_close s0 t AfterClose WkPlain)
+   | CDisableBuf -> Some (finish (set_buffering s0 false) t ResOk)
+   | CEnableBuf -> Some (finish (set_buffering s0 true) t ResOk)
+   | CFail -> Some (finish (set_failing s0) t ResOk)
+   | CFeed ev -> Some (finish (feed_ev s0 ev) t ResOk))
+
+(** val step : state -> tid -> state option **)
+
+let step s t =
+  let x = s.tasks t in
+  (match x.t_pc with
+   | PIdle ->
+     (match x.t_prog with
+      | [] -> None
+      | c :: rest -> start_call s t c rest)
+   | PW0 (k, f) ->
+     if s.closed
+     then Some (finish s t ResClosed)
+     else if s.buffering
+          then Some (set_pc s t (PW1 (k, f)))
+          else Some (set_pc s t (PW2 (k, f)))
+   | PW1 (_, f) ->
+     Some
+       (finish
+         (set_queue s (app s.pending ((t, f) :: []))
+           (app s.lin ((t, f) :: []))) t ResOk)
+   | PW2 (k, f) ->
+     (match s.wr0 with
+      | Some _ ->
+        Some
+          (set_pc (set_lock s s.wr0 (app s.waiters (t :: []))) t (PW2wait (k,
+            f)))
+      | None -> Some (set_pc (set_lock s (Some t) s.waiters) t (PW3 (k, f))))
+   | PW3 (k, f) ->
+     Some
+       (set_pc (set_queue s [] (app s.lin ((t, f) :: []))) t (PW4 (k,
+         (app s.pending ((t, f) :: [])))))
+   | PW4 (k, held) ->
+     let n0 = N.add s.pkt (Npos XH) in
+     if (||) s.failing s.shut
+     then Some
+            (set_pc (release (set_wire s n0 s.wire)) t (PE0 (AfterIoErr, k)))
+     else Some
+            (finish (release (set_wire s n0 (app s.wire ((n0, held) :: []))))
+              t ResOk)
+   | PE0 (a, k) -> Some (enter_close s t a k)
+   | PC1 (a, k) ->
+     Some
+       (set_pc
+         (set_table (set_tasks s (drain s.table s.tasks)) s.next_sid []) t
+         (PC2 (a, k)))
+   | PC2 (a, k) ->
+     (match s.wr0 with
+      | Some _ ->
+        Some
+          (set_pc (set_lock s s.wr0 (app s.waiters (t :: []))) t (PC2wait (a,
+            k)))
+      | None -> Some (finish_close (set_shut s) t a))
+   | PO1 sid -> Some (set_pc s t (PW0 (WkOpen, (syn_frame sid))))
+   | _ -> None)
+
+(** val step_or_skip : state -> tid -> state **)
+
+let step_or_skip s t =
+  match step s t with
+  | Some s' -> s'
+  | None -> s
+
+(** val run : state -> tid list -> state **)
+
+let run s sched =
+  fold_left step_or_skip sched s
+
+(** val init : call list list -> bool -> witem list -> state **)
+
+let init progs buf pend =
+  { buffering = buf; pending = pend; wr0 = None; waiters = []; pkt =
+    client_pkt_start; wire = []; closed = false; shut = false; failing =
+    false; next_sid = client_first_stream_id; table = []; ralive = true;
+    tasks = (fun t -> idle_task (nth t progs [])); lin = pend }
+
+(** val flat_wire : state -> witem list **)
+
+let flat_wire s =
+  concat (map snd s.wire)
